@@ -93,19 +93,8 @@ Definition nrel (f : pmap) (np cp : option nat) (k x : nat) (mn : mnode) (dn : d
 
 Definition init_nl (e : entry) : Z := if etype_eqb (e_type e) TDir then 1 else 0.
 
-(* the db id the NAME of memory node k leads to: its own node, or for a processed hardlink entry the node of its source *)
-Definition fx (f h : pmap) (k : nat) : option nat :=
-  match f k with
-  | Some x => Some x
-  | None => match h k with Some o => f o | None => None end
-  end.
-
-Definition ntype (ms : mst) (k : nat) : etype :=
-  match nth_error (ms_nodes ms) k with Some mn => e_type (mn_e mn) | None => TOther end.
-
-Record Inv (toc : list entry) (i : nat) (ms : mst) (ds : dst) (f h : pmap) (P : list (list Z)) (np cp : option nat) : Prop := {
+Record Inv (toc : list entry) (i : nat) (ms : mst) (ds : dst) (f : pmap) (P : list (list Z)) (np cp : option nat) : Prop := {
   v_lenm : (length toc <= length (ms_nodes ms))%nat;
-  v_mlen : (length toc <= length (ms_m ms))%nat;
   v_expl : forall j e, nth_error toc j = Some e -> pfind (cname e) (ms_m ms) = Some j;
   v_mdom : forall p k, pfind p (ms_m ms) = Some k ->
              exists mn, nth_error (ms_nodes ms) k = Some mn /\ cname (mn_e mn) = p;
@@ -114,121 +103,68 @@ Record Inv (toc : list entry) (i : nat) (ms : mst) (ds : dst) (f h : pmap) (P : 
              (exists d, mn_e mn = implicit_dir d) /\ f k <> None;
   v_todo : forall j mn, (i <= j < length toc)%nat -> nth_error (ms_nodes ms) j = Some mn ->
              f j = None /\ mn_nlink mn = init_nl (mn_e mn) /\ mn_ch mn = [];
-  v_htodo : forall j, (i <= j)%nat -> h j = None;
-  v_done : forall j, (j < i)%nat -> (j < length toc)%nat -> f j <> None \/ h j <> None;
+  v_done : forall j, (j < i)%nat -> (j < length toc)%nat -> f j <> None;
   v_dom : forall k x, f k = Some x ->
             exists mn dn, nth_error (ms_nodes ms) k = Some mn /\ nth_error (ds_nodes ds) x = Some dn /\ nrel f np cp k x mn dn;
-  v_ftype : forall k x, f k = Some x -> ntype ms k <> THardlink;
   v_inj : forall k k' x, f k = Some x -> f k' = Some x -> k = k';
   v_L1 : forall p x, d_find ds p = Some x -> p <> [] ->
-           exists k, pfind p (ms_m ms) = Some k /\ fx f h k = Some x /\ ~ In p P;
-  v_L2 : forall p k x, pfind p (ms_m ms) = Some k -> fx f h k = Some x -> ~ In p P -> d_find ds p = Some x;
-  v_root : (exists r, pfind [] (ms_m ms) = Some r /\ f r = Some O /\ ntype ms r = TDir
-                      /\ (length (ds_nodes ds) + length toc <= length (ms_nodes ms) + i)%nat) \/
+           exists k, pfind p (ms_m ms) = Some k /\ f k = Some x /\ ~ In p P;
+  v_L2 : forall p k x, pfind p (ms_m ms) = Some k -> f k = Some x -> ~ In p P -> d_find ds p = Some x;
+  v_root : (exists r, pfind [] (ms_m ms) = Some r /\ f r = Some O /\ (length (ms_nodes ms) + i = length (ds_nodes ds) + length toc)%nat) \/
            ((pfind [] (ms_m ms) = None \/ exists r0, pfind [] (ms_m ms) = Some r0 /\ f r0 = None)
             /\ nth_error (ds_nodes ds) 0 = Some (DN (write_attr root_attr) [] [])
-            /\ (forall k, f k <> Some O) /\ (length (ds_nodes ds) + length toc <= S (length (ms_nodes ms)) + i)%nat);
+            /\ (forall k, f k <> Some O) /\ (S (length (ms_nodes ms)) + i = length (ds_nodes ds) + length toc)%nat);
   v_pend : forall p, In p P -> p <> [] /\ exists k x mn, pfind p (ms_m ms) = Some k /\ f k = Some x
                                    /\ nth_error (ms_nodes ms) k = Some mn /\ mn_ch mn = [];
   v_nodupP : NoDup P;
-  v_np : forall j, np = Some j -> (j < length (ms_nodes ms))%nat /\ f j <> None;
-  v_cp : forall y, cp = Some y -> (y < length (ds_nodes ds))%nat;
-  (* a processed hardlink entry k whose source (after following the chain) is node o *)
-  v_h : forall k o, h k = Some o ->
-          (o < k)%nat /\ (k < length toc)%nat /\ f k = None /\ ntype ms k = THardlink /\
-          (exists x mo, f o = Some x /\ nth_error (ms_nodes ms) o = Some mo /\ e_type (mn_e mo) <> TDir /\ mn_ch mo = []) /\
-          (forall fuel, (k < fuel)%nat -> m_source fuel ms k = Some o);
-  (* only directories have children *)
-  v_leaf : forall k mn, nth_error (ms_nodes ms) k = Some mn -> e_type (mn_e mn) <> TDir -> mn_ch mn = []
+  v_np : forall j, np = Some j -> exists p, In p P /\ pfind p (ms_m ms) = Some j;
+  v_cp : forall y, cp = Some y -> (y < length (ds_nodes ds))%nat
 }.
 
-Lemma fx_f : forall f h k x, f k = Some x -> fx f h k = Some x.
-Proof. intros f h k x H. unfold fx. rewrite H. reflexivity. Qed.
-
-Lemma fx_cases : forall f h k y, fx f h k = Some y -> f k = Some y \/ (f k = None /\ exists o, h k = Some o /\ f o = Some y).
-Proof.
-  intros f h k y H. unfold fx in H. destruct (f k) eqn:E; [left; exact H|right]. split; [reflexivity|].
-  destruct (h k) as [o|]; [exists o; auto|discriminate].
-Qed.
-
-(* extending f at an index that is neither mapped nor a hardlink source keeps the name map *)
-Lemma fx_pset : forall f h k0 x k y, f k0 = None -> h k0 = None -> fx f h k = Some y -> fx (pset f k0 x) h k = Some y.
-Proof.
-  intros f h k0 x k y Hf Hh H. destruct (fx_cases f h k y H) as [E|[E [o [Ho Eo]]]].
-  - apply fx_f. unfold pset. destruct (Nat.eqb k k0) eqn:Ek; [apply Nat.eqb_eq in Ek; subst; congruence|exact E].
-  - unfold fx, pset. destruct (Nat.eqb k k0) eqn:Ek; [apply Nat.eqb_eq in Ek; subst; congruence|].
-    rewrite E, Ho. destruct (Nat.eqb o k0) eqn:Eo2; [apply Nat.eqb_eq in Eo2; subst; congruence|exact Eo].
-Qed.
-
-Lemma fx_pset_inv : forall f h k0 x k y, (forall k1 o, h k1 = Some o -> f o <> None) -> f k0 = None ->
-  k <> k0 -> fx (pset f k0 x) h k = Some y -> fx f h k = Some y.
-Proof.
-  intros f h k0 x k y Hh Hf Hk H. unfold fx, pset in *. apply Nat.eqb_neq in Hk. rewrite Hk in H.
-  destruct (f k); [exact H|]. destruct (h k) as [o|] eqn:Ho; [|exact H].
-  destruct (Nat.eqb o k0) eqn:Eo; [|exact H]. apply Nat.eqb_eq in Eo. subst o. exfalso. exact (Hh k k0 Ho Hf).
-Qed.
-
-Lemma Inv_range : forall toc i ms ds f h P np cp, Inv toc i ms ds f h P np cp ->
+Lemma Inv_range : forall toc i ms ds f P np cp, Inv toc i ms ds f P np cp ->
   forall q y, d_find ds q = Some y -> (y < length (ds_nodes ds))%nat.
 Proof.
-  intros toc i ms ds f h P np cp H q y Hq. destruct q as [|b q].
-  - simpl in Hq. inversion Hq; subst. destruct (v_root _ _ _ _ _ _ _ _ _ H) as [[r [_ [Hr _]]]|[_ [H0 _]]].
-    + destruct (v_dom _ _ _ _ _ _ _ _ _ H r O Hr) as [mn [dn [_ [Hd _]]]]. apply nth_error_Some. congruence.
+  intros toc i ms ds f P np cp H q y Hq. destruct q as [|b q].
+  - simpl in Hq. inversion Hq; subst. destruct (v_root _ _ _ _ _ _ _ _ H) as [[r [_ [Hr _]]]|[_ [H0 _]]].
+    + destruct (v_dom _ _ _ _ _ _ _ _ H r O Hr) as [mn [dn [_ [Hd _]]]]. apply nth_error_Some. congruence.
     + apply nth_error_Some. congruence.
-  - destruct (v_L1 _ _ _ _ _ _ _ _ _ H (b :: q) y Hq ltac:(discriminate)) as [k [_ [Hk _]]].
-    assert (Hk' : exists k', f k' = Some y) by (destruct (fx_cases f h k y Hk) as [E|[_ [o [_ E]]]]; eauto).
-    destruct Hk' as [k' Hk'].
-    destruct (v_dom _ _ _ _ _ _ _ _ _ H k' y Hk') as [mn [dn [_ [Hd _]]]]. apply nth_error_Some. congruence.
+  - destruct (v_L1 _ _ _ _ _ _ _ _ H (b :: q) y Hq ltac:(discriminate)) as [k [_ [Hk _]]].
+    destruct (v_dom _ _ _ _ _ _ _ _ H k y Hk) as [mn [dn [_ [Hd _]]]]. apply nth_error_Some. congruence.
 Qed.
 
-Lemma Inv_pfun_name : forall toc i ms ds f h P np cp, Inv toc i ms ds f h P np cp ->
+Lemma Inv_pfun_name : forall toc i ms ds f P np cp, Inv toc i ms ds f P np cp ->
   forall p p' k, pfind p (ms_m ms) = Some k -> pfind p' (ms_m ms) = Some k -> p = p'.
 Proof.
-  intros toc i ms ds f h P np cp H p p' k H1 H2.
-  destruct (v_mdom _ _ _ _ _ _ _ _ _ H p k H1) as [mn [Hn Hc]].
-  destruct (v_mdom _ _ _ _ _ _ _ _ _ H p' k H2) as [mn' [Hn' Hc']]. congruence.
-Qed.
-
-Lemma ntype_nth : forall ms k mn, nth_error (ms_nodes ms) k = Some mn -> ntype ms k = e_type (mn_e mn).
-Proof. intros ms k mn H. unfold ntype. rewrite H. reflexivity. Qed.
-
-(* a hardlink source is never a directory *)
-Lemma Inv_h_nondir : forall toc i ms ds f h P np cp, Inv toc i ms ds f h P np cp ->
-  forall k o, h k = Some o -> ntype ms o <> TDir.
-Proof.
-  intros toc i ms ds f h P np cp H k o Hk.
-  destruct (v_h _ _ _ _ _ _ _ _ _ H k o Hk) as [_ [_ [_ [_ [[x [mo [_ [Hn [Ht _]]]]] _]]]]].
-  rewrite (ntype_nth ms o mo Hn). exact Ht.
+  intros toc i ms ds f P np cp H p p' k H1 H2.
+  destruct (v_mdom _ _ _ _ _ _ _ _ H p k H1) as [mn [Hn Hc]].
+  destruct (v_mdom _ _ _ _ _ _ _ _ H p' k H2) as [mn' [Hn' Hc']]. congruence.
 Qed.
 
 (* the db store finds [] at node 0, and nothing else there *)
-Lemma Inv_find_zero : forall toc i ms ds f h P np cp, Inv toc i ms ds f h P np cp ->
+Lemma Inv_find_zero : forall toc i ms ds f P np cp, Inv toc i ms ds f P np cp ->
   forall q, d_find ds q = Some O -> q = [].
 Proof.
-  intros toc i ms ds f h P np cp H q Hq. destruct q as [|b q]; [reflexivity|exfalso].
-  destruct (v_L1 _ _ _ _ _ _ _ _ _ H (b :: q) O Hq ltac:(discriminate)) as [k [Hp [Hk _]]].
-  destruct (v_root _ _ _ _ _ _ _ _ _ H) as [[r [Hr [Hfr [Hty _]]]]|[_ [_ [Hno _]]]].
-  - destruct (fx_cases f h k O Hk) as [E|[_ [o [Ho E]]]].
-    + assert (k = r) by exact (v_inj _ _ _ _ _ _ _ _ _ H k r O E Hfr). subst r.
-      assert (b :: q = []) by exact (Inv_pfun_name _ _ _ _ _ _ _ _ _ H _ _ _ Hp Hr). discriminate.
-    + assert (o = r) by exact (v_inj _ _ _ _ _ _ _ _ _ H o r O E Hfr). subst r.
-      exact (Inv_h_nondir _ _ _ _ _ _ _ _ _ H k o Ho Hty).
-  - destruct (fx_cases f h k O Hk) as [E|[_ [o [_ E]]]]; [exact (Hno k E)|exact (Hno o E)].
+  intros toc i ms ds f P np cp H q Hq. destruct q as [|b q]; [reflexivity|exfalso].
+  destruct (v_L1 _ _ _ _ _ _ _ _ H (b :: q) O Hq ltac:(discriminate)) as [k [Hp [Hk _]]].
+  destruct (v_root _ _ _ _ _ _ _ _ H) as [[r [Hr [Hfr _]]]|[_ [_ [Hno _]]]].
+  - assert (k = r) by exact (v_inj _ _ _ _ _ _ _ _ H k r O Hk Hfr). subst r.
+    assert (b :: q = []) by exact (Inv_pfun_name _ _ _ _ _ _ _ _ H _ _ _ Hp Hr). discriminate.
+  - exact (Hno k Hk).
 Qed.
 
-(* the path the db store finds a DIRECTORY node at is the name of that directory (files may have several paths: hardlinks) *)
-Lemma Inv_find_dir : forall toc i ms ds f h P np cp, Inv toc i ms ds f h P np cp ->
-  forall kd y q, f kd = Some y -> ntype ms kd = TDir -> d_find ds q = Some y -> pfind q (ms_m ms) = Some kd.
+(* paths found by the db store are unique per node *)
+Lemma Inv_find_inj : forall toc i ms ds f P np cp, Inv toc i ms ds f P np cp ->
+  forall q q' y, d_find ds q = Some y -> d_find ds q' = Some y -> q = q'.
 Proof.
-  intros toc i ms ds f h P np cp H kd y q Hf Hty Hq. destruct q as [|b q].
-  - simpl in Hq. inversion Hq; subst y.
-    destruct (v_root _ _ _ _ _ _ _ _ _ H) as [[r [Hr [Hfr _]]]|[_ [_ [Hno _]]]]; [|exfalso; exact (Hno kd Hf)].
-    assert (kd = r) by exact (v_inj _ _ _ _ _ _ _ _ _ H kd r O Hf Hfr). subst r. exact Hr.
-  - destruct (v_L1 _ _ _ _ _ _ _ _ _ H _ y Hq ltac:(discriminate)) as [k [Hp [Hk _]]].
-    destruct (fx_cases f h k y Hk) as [E|[_ [o [Ho E]]]].
-    + assert (k = kd) by exact (v_inj _ _ _ _ _ _ _ _ _ H k kd y E Hf). subst k. exact Hp.
-    + assert (o = kd) by exact (v_inj _ _ _ _ _ _ _ _ _ H o kd y E Hf). subst o.
-      exfalso. exact (Inv_h_nondir _ _ _ _ _ _ _ _ _ H k kd Ho Hty).
+  intros toc i ms ds f P np cp H q q' y H1 H2.
+  destruct q as [|b q]; destruct q' as [|b' q'].
+  - reflexivity.
+  - simpl in H1. inversion H1; subst. symmetry. exact (Inv_find_zero _ _ _ _ _ _ _ _ H _ H2).
+  - simpl in H2. inversion H2; subst. exact (Inv_find_zero _ _ _ _ _ _ _ _ H _ H1).
+  - destruct (v_L1 _ _ _ _ _ _ _ _ H _ y H1 ltac:(discriminate)) as [k [Hp [Hk _]]].
+    destruct (v_L1 _ _ _ _ _ _ _ _ H _ y H2 ltac:(discriminate)) as [k' [Hp' [Hk' _]]].
+    assert (k = k') by exact (v_inj _ _ _ _ _ _ _ _ H k k' y Hk Hk'). subst k'.
+    exact (Inv_pfun_name _ _ _ _ _ _ _ _ H _ _ _ Hp Hp').
 Qed.
 
 (* ---------- the two primitive updates, explicitly ---------- *)
@@ -289,132 +225,80 @@ Proof. intros f b H. inversion H. reflexivity. Qed.
 
 (* ---------- linking a pending node below its parent ---------- *)
 
-Lemma m_source_stable : forall ms ms',
-  (forall z mn, nth_error (ms_nodes ms) z = Some mn -> exists mn', nth_error (ms_nodes ms') z = Some mn' /\ mn_e mn' = mn_e mn) ->
-  (forall q k, pfind q (ms_m ms) = Some k -> pfind q (ms_m ms') = Some k) ->
-  forall fuel k o, m_source fuel ms k = Some o -> m_source fuel ms' k = Some o.
-Proof.
-  intros ms ms' Hn Hm. induction fuel as [|fuel IH]; intros k o H.
-  - simpl in *. destruct (nth_error (ms_nodes ms) k) as [mn|] eqn:E; [|discriminate].
-    destruct (Hn k mn E) as [mn' [E' He]]. rewrite E', He.
-    destruct (etype_eqb (e_type (mn_e mn)) THardlink); [discriminate|exact H].
-  - simpl in *. destruct (nth_error (ms_nodes ms) k) as [mn|] eqn:E; [|discriminate].
-    destruct (Hn k mn E) as [mn' [E' He]]. rewrite E', He.
-    destruct (etype_eqb (e_type (mn_e mn)) THardlink); [|exact H].
-    destruct (pfind (clean (e_hl (mn_e mn))) (ms_m ms)) as [j|] eqn:Ej; [|discriminate].
-    rewrite (Hm _ _ Ej). apply IH. exact H.
-Qed.
-
-(* transport of the hardlink clause along a change of the memory state that keeps entries and the name map *)
-Lemma v_h_transport : forall toc i ms ds f h P np cp ms', Inv toc i ms ds f h P np cp ->
-  (forall z mn, nth_error (ms_nodes ms) z = Some mn -> exists mn', nth_error (ms_nodes ms') z = Some mn' /\ mn_e mn' = mn_e mn
-       /\ (ntype ms z <> TDir -> mn_ch mn' = mn_ch mn)) ->
-  (forall q k, pfind q (ms_m ms) = Some k -> pfind q (ms_m ms') = Some k) ->
-  forall f', psub f f' -> (forall k, h k <> None -> f' k = None) ->
-  forall k o, h k = Some o ->
-          (o < k)%nat /\ (k < length toc)%nat /\ f' k = None /\ ntype ms' k = THardlink /\
-          (exists x mo, f' o = Some x /\ nth_error (ms_nodes ms') o = Some mo /\ e_type (mn_e mo) <> TDir /\ mn_ch mo = []) /\
-          (forall fuel, (k < fuel)%nat -> m_source fuel ms' k = Some o).
-Proof.
-  intros toc i ms ds f h P np cp ms' H Hn Hm f' Hsub Hfh k o Hk.
-  destruct (v_h _ _ _ _ _ _ _ _ _ H k o Hk) as [H1 [H2 [H3 [H4 [[x [mo [H5 [H6 [H7 H8]]]]] H9]]]]].
-  split; [exact H1|]. split; [exact H2|]. split; [apply Hfh; congruence|]. split.
-  - unfold ntype in *. destruct (nth_error (ms_nodes ms) k) as [mk|] eqn:E; [|discriminate].
-    destruct (Hn k mk E) as [mk' [E' [He _]]]. rewrite E', He. exact H4.
-  - split.
-    + destruct (Hn o mo H6) as [mo' [E' [He Hc]]]. exists x, mo'. split; [apply Hsub; exact H5|]. split; [exact E'|].
-      rewrite He. split; [exact H7|]. rewrite Hc; [exact H8|]. rewrite (ntype_nth ms o mo H6). exact H7.
-    + intros fuel Hf. apply (m_source_stable ms ms'); [|exact Hm|exact (H9 fuel Hf)].
-      intros z mn E. destruct (Hn z mn E) as [mn' [E' [He _]]]. exists mn'. auto.
-Qed.
-
-Lemma Inv_link : forall toc i ms ds f h p P' np cp base par k x kp pid,
-  Inv toc i ms ds f h (p :: P') np cp ->
+Lemma Inv_link : forall toc i ms ds f p P' np cp base par k x kp pid,
+  Inv toc i ms ds f (p :: P') np cp ->
   p = base :: par ->
   pfind p (ms_m ms) = Some k -> f k = Some x ->
   pfind par (ms_m ms) = Some kp -> f kp = Some pid -> ~ In par (p :: P') ->
-  ntype ms kp = TDir -> (forall k', h k' <> Some k) ->
-  Inv toc i (m_add_child ms kp base k) (d_set_child ds pid base x (etype_eqb (m_type ms k) TDir)) f h P' np cp.
+  np <> Some k ->
+  Inv toc i (m_add_child ms kp base k) (d_set_child ds pid base x (etype_eqb (m_type ms k) TDir)) f P' np cp.
 Proof.
-  intros toc i ms ds f h p P' np cp base par k x kp pid H Hp Hk Hfk Hkp Hfkp Hparn Hkpdir Hnoh.
+  intros toc i ms ds f p P' np cp base par k x kp pid H Hp Hk Hfk Hkp Hfkp Hparn Hnp.
   set (isdir := etype_eqb (m_type ms k) TDir).
-  destruct (v_dom _ _ _ _ _ _ _ _ _ H kp pid Hfkp) as [mnp [dnp [Hmnp [Hdnp Hrelp]]]].
-  destruct (v_dom _ _ _ _ _ _ _ _ _ H k x Hfk) as [mnk [dnk [Hmnk [Hdnk Hrelk]]]].
+  destruct (v_dom _ _ _ _ _ _ _ _ H kp pid Hfkp) as [mnp [dnp [Hmnp [Hdnp Hrelp]]]].
+  destruct (v_dom _ _ _ _ _ _ _ _ H k x Hfk) as [mnk [dnk [Hmnk [Hdnk Hrelk]]]].
   destruct (m_add_child_spec ms kp base k mnp Hmnp) as [Mm [Ml [Mp Mo]]]. fold isdir in Mp.
   destruct (d_set_child_spec ds pid base x isdir dnp Hdnp) as [Dl [Dp [Do [Dlast Dsz]]]].
   set (ms' := m_add_child ms kp base k) in *. set (ds' := d_set_child ds pid base x isdir) in *.
   assert (Hkne : kp <> k).
-  { intro E. subst kp. assert (par = p) by exact (Inv_pfun_name _ _ _ _ _ _ _ _ _ H _ _ _ Hkp Hk).
+  { intro E. subst kp. assert (par = p) by exact (Inv_pfun_name _ _ _ _ _ _ _ _ H _ _ _ Hkp Hk).
     subst p. apply (f_equal (@length Z)) in H0. simpl in H0. lia. }
   assert (Hpne : p <> []) by (subst p; discriminate).
-  assert (HPar : d_find ds par = Some pid) by exact (v_L2 _ _ _ _ _ _ _ _ _ H par kp pid Hkp (fx_f f h kp pid Hfkp) Hparn).
+  assert (HPar : d_find ds par = Some pid) by exact (v_L2 _ _ _ _ _ _ _ _ H par kp pid Hkp Hfkp Hparn).
   assert (HkCh : mn_ch mnk = []).
-  { destruct (v_pend _ _ _ _ _ _ _ _ _ H p (or_introl eq_refl)) as [_ [k0 [x0 [mn0 [Hk0 [_ [Hn0 Hc0]]]]]]].
+  { destruct (v_pend _ _ _ _ _ _ _ _ H p (or_introl eq_refl)) as [_ [k0 [x0 [mn0 [Hk0 [_ [Hn0 Hc0]]]]]]].
     rewrite Hk in Hk0. inversion Hk0; subst k0. rewrite Hmnk in Hn0. inversion Hn0; subst mn0. exact Hc0. }
   assert (Hxkids : d_children ds x = []).
   { unfold d_children. rewrite Hdnk. destruct Hrelk as [_ [_ [Hc _]]]. rewrite HkCh in Hc. exact (ch_rel_nil _ _ Hc). }
   assert (Hxne0 : forall q, d_find ds q <> Some x).
   { intros q Hq. destruct q as [|b q].
     - simpl in Hq. inversion Hq; subst x.
-      destruct (v_root _ _ _ _ _ _ _ _ _ H) as [[r [Hr [Hfr _]]]|[_ [_ [Hno _]]]].
-      + assert (k = r) by exact (v_inj _ _ _ _ _ _ _ _ _ H k r O Hfk Hfr). subst r.
-        assert (p = []) by exact (Inv_pfun_name _ _ _ _ _ _ _ _ _ H _ _ _ Hk Hr). contradiction.
+      destruct (v_root _ _ _ _ _ _ _ _ H) as [[r [Hr [Hfr _]]]|[_ [_ [Hno _]]]].
+      + assert (k = r) by exact (v_inj _ _ _ _ _ _ _ _ H k r O Hfk Hfr). subst r.
+        assert (p = []) by exact (Inv_pfun_name _ _ _ _ _ _ _ _ H _ _ _ Hk Hr). contradiction.
       + exact (Hno k Hfk).
-    - destruct (v_L1 _ _ _ _ _ _ _ _ _ H _ x Hq ltac:(discriminate)) as [k' [Hp' [Hk' Hnin]]].
-      destruct (fx_cases f h k' x Hk') as [E|[_ [o [Ho E]]]].
-      + assert (k' = k) by exact (v_inj _ _ _ _ _ _ _ _ _ H k' k x E Hfk). subst k'.
-        assert (b :: q = p) by exact (Inv_pfun_name _ _ _ _ _ _ _ _ _ H _ _ _ Hp' Hk).
-        apply Hnin. left. symmetry. exact H0.
-      + assert (o = k) by exact (v_inj _ _ _ _ _ _ _ _ _ H o k x E Hfk). subst o. exact (Hnoh k' Ho). }
+    - destruct (v_L1 _ _ _ _ _ _ _ _ H _ x Hq ltac:(discriminate)) as [k' [Hp' [Hk' Hnin]]].
+      assert (k' = k) by exact (v_inj _ _ _ _ _ _ _ _ H k' k x Hk' Hfk). subst k'.
+      assert (b :: q = p) by exact (Inv_pfun_name _ _ _ _ _ _ _ _ H _ _ _ Hp' Hk).
+      apply Hnin. left. symmetry. exact H0. }
   assert (Hnone : find base (d_children ds pid) = None).
   { destruct (d_find ds p) as [y|] eqn:Ey.
-    - exfalso. destruct (v_L1 _ _ _ _ _ _ _ _ _ H p y Ey Hpne) as [_ [_ [_ Hnin]]]. apply Hnin. left. reflexivity.
+    - exfalso. destruct (v_L1 _ _ _ _ _ _ _ _ H p y Ey Hpne) as [_ [_ [_ Hnin]]]. apply Hnin. left. reflexivity.
     - subst p. rewrite d_find_cons, HPar in Ey. exact Ey. }
   assert (Lpid : (pid < length (ds_nodes ds))%nat) by (apply nth_error_Some; congruence).
   assert (Hch' : forall y, d_children ds' y = if Nat.eqb y pid then ins base x (d_children ds pid) else d_children ds y)
     by (intro y; apply d_children_set_child; exact Lpid).
   assert (Hfind' : forall q, d_find ds' q = if path_eqb q (base :: par) then Some x else d_find ds q).
   { apply (d_find_link ds ds' pid base x par Hch' HPar).
-    - intros q Hq. pose proof (Inv_find_dir _ _ _ _ _ _ _ _ _ H kp pid q Hfkp Hkpdir Hq) as Hq'.
-      exact (Inv_pfun_name _ _ _ _ _ _ _ _ _ H _ _ _ Hq' Hkp).
+    - intros q Hq. exact (Inv_find_inj _ _ _ _ _ _ _ _ H q par pid Hq HPar).
     - exact Hnone.
     - exact Hxkids.
     - exact Hxne0. }
-  assert (HnodupP : NoDup (p :: P')) by exact (v_nodupP _ _ _ _ _ _ _ _ _ H).
+  assert (HnodupP : NoDup (p :: P')) by exact (v_nodupP _ _ _ _ _ _ _ _ H).
   assert (HpP' : ~ In p P') by (inversion HnodupP; assumption).
+  (* nodes of the new memory state *)
   assert (Mnth : forall z mn, nth_error (ms_nodes ms') z = Some mn ->
             exists mn0, nth_error (ms_nodes ms) z = Some mn0 /\ mn_e mn = mn_e mn0 /\
                         (z <> kp -> mn = mn0)).
   { intros z mn Hz. destruct (Nat.eq_dec z kp) as [->|Hne].
     - rewrite Mp in Hz. inversion Hz; subst mn. exists mnp. split; [exact Hmnp|]. split; [reflexivity|]. intro; contradiction.
     - rewrite Mo in Hz by exact Hne. exists mn. auto. }
-  assert (Mfwd : forall z mn, nth_error (ms_nodes ms) z = Some mn -> exists mn', nth_error (ms_nodes ms') z = Some mn' /\ mn_e mn' = mn_e mn
-       /\ (ntype ms z <> TDir -> mn_ch mn' = mn_ch mn)).
-  { intros z mn Hz. destruct (Nat.eq_dec z kp) as [->|Hne].
-    - eexists. split; [exact Mp|]. rewrite Hmnp in Hz. inversion Hz; subst mn. split; [reflexivity|]. intro; contradiction.
-    - exists mn. split; [rewrite Mo by exact Hne; exact Hz|]. auto. }
-  assert (Mty : forall z, ntype ms' z = ntype ms z).
-  { intro z. unfold ntype. destruct (nth_error (ms_nodes ms) z) as [mn|] eqn:E.
-    - destruct (Mfwd z mn E) as [mn' [E' [He _]]]. rewrite E', He. reflexivity.
-    - assert (nth_error (ms_nodes ms') z = None) by (apply nth_error_None; rewrite Ml; apply nth_error_None; exact E). rewrite H0. reflexivity. }
   constructor.
-  - rewrite Ml. exact (v_lenm _ _ _ _ _ _ _ _ _ H).
-  - rewrite Mm. exact (v_mlen _ _ _ _ _ _ _ _ _ H).
-  - intros j e Hj. rewrite Mm. exact (v_expl _ _ _ _ _ _ _ _ _ H j e Hj).
-  - intros q k0 Hq. rewrite Mm in Hq. destruct (v_mdom _ _ _ _ _ _ _ _ _ H q k0 Hq) as [mn [Hn Hc]].
+  - rewrite Ml. exact (v_lenm _ _ _ _ _ _ _ _ H).
+  - intros j e Hj. rewrite Mm. exact (v_expl _ _ _ _ _ _ _ _ H j e Hj).
+  - intros q k0 Hq. rewrite Mm in Hq. destruct (v_mdom _ _ _ _ _ _ _ _ H q k0 Hq) as [mn [Hn Hc]].
     destruct (Nat.eq_dec k0 kp) as [->|Hne].
     + eexists. split; [exact Mp|]. simpl. rewrite Hmnp in Hn. inversion Hn; subst mn. exact Hc.
     + exists mn. split; [rewrite Mo by exact Hne; exact Hn|exact Hc].
   - intros j mn Hj Hn. destruct (Mnth j mn Hn) as [mn0 [Hn0 [He _]]]. rewrite He.
-    exact (v_ent _ _ _ _ _ _ _ _ _ H j mn0 Hj Hn0).
+    exact (v_ent _ _ _ _ _ _ _ _ H j mn0 Hj Hn0).
   - intros k0 mn Hk0 Hn. destruct (Mnth k0 mn Hn) as [mn0 [Hn0 [He _]]]. rewrite He.
-    exact (v_impl _ _ _ _ _ _ _ _ _ H k0 mn0 Hk0 Hn0).
+    exact (v_impl _ _ _ _ _ _ _ _ H k0 mn0 Hk0 Hn0).
   - intros j mn Hj Hn. destruct (Mnth j mn Hn) as [mn0 [Hn0 [He Hsame]]].
-    destruct (v_todo _ _ _ _ _ _ _ _ _ H j mn0 Hj Hn0) as [Hfj Hrest].
+    destruct (v_todo _ _ _ _ _ _ _ _ H j mn0 Hj Hn0) as [Hfj Hrest].
     assert (j <> kp) by (intro; subst j; congruence).
     rewrite (Hsame H0). split; assumption.
-  - exact (v_htodo _ _ _ _ _ _ _ _ _ H).
-  - exact (v_done _ _ _ _ _ _ _ _ _ H).
+  - exact (v_done _ _ _ _ _ _ _ _ H).
   - intros k0 x0 Hf0. destruct (Nat.eq_dec k0 kp) as [->|Hne].
     + assert (x0 = pid) by congruence. subst x0.
       eexists. eexists. split; [exact Mp|]. split; [exact Dp|].
@@ -424,41 +308,30 @@ Proof.
       * destruct isdir; lia.
       * apply ch_rel_ins; assumption.
       * exact Hck.
-    + destruct (v_dom _ _ _ _ _ _ _ _ _ H k0 x0 Hf0) as [mn [dn [Hn [Hd Hr]]]].
+    + destruct (v_dom _ _ _ _ _ _ _ _ H k0 x0 Hf0) as [mn [dn [Hn [Hd Hr]]]].
       exists mn, dn. split; [rewrite Mo by exact Hne; exact Hn|]. split; [|exact Hr].
-      rewrite Do; [exact Hd|]. intro E. subst x0. apply Hne. exact (v_inj _ _ _ _ _ _ _ _ _ H k0 kp pid Hf0 Hfkp).
-  - intros k0 x0 Hf0. rewrite Mty. exact (v_ftype _ _ _ _ _ _ _ _ _ H k0 x0 Hf0).
-  - exact (v_inj _ _ _ _ _ _ _ _ _ H).
+      rewrite Do; [exact Hd|]. intro E. subst x0. apply Hne. exact (v_inj _ _ _ _ _ _ _ _ H k0 kp pid Hf0 Hfkp).
+  - exact (v_inj _ _ _ _ _ _ _ _ H).
   - intros q y Hq Hqne. rewrite Hfind' in Hq. rewrite Mm. destruct (path_eqb q (base :: par)) eqn:E.
-    + apply path_eqb_eq in E. inversion Hq; subst y. exists k. rewrite E, <- Hp. split; [exact Hk|]. split; [apply fx_f; exact Hfk|exact HpP'].
-    + destruct (v_L1 _ _ _ _ _ _ _ _ _ H q y Hq Hqne) as [k0 [H1 [H2 H3]]]. exists k0. split; [exact H1|]. split; [exact H2|].
+    + apply path_eqb_eq in E. inversion Hq; subst y. exists k. rewrite E, <- Hp. auto.
+    + destruct (v_L1 _ _ _ _ _ _ _ _ H q y Hq Hqne) as [k0 [H1 [H2 H3]]]. exists k0. split; [exact H1|]. split; [exact H2|].
       intro Hin. apply H3. right. exact Hin.
   - intros q k0 y Hq Hf0 Hnin. rewrite Mm in Hq. rewrite Hfind'. destruct (path_eqb q (base :: par)) eqn:E.
-    + apply path_eqb_eq in E. rewrite <- Hp in E. subst q. rewrite Hk in Hq. inversion Hq; subst k0.
-      unfold fx in Hf0. rewrite Hfk in Hf0. exact Hf0.
-    + apply (v_L2 _ _ _ _ _ _ _ _ _ H q k0 y Hq Hf0). intros [Hin|Hin]; [|exact (Hnin Hin)].
+    + apply path_eqb_eq in E. rewrite <- Hp in E. subst q. rewrite Hk in Hq. inversion Hq; subst k0. congruence.
+    + apply (v_L2 _ _ _ _ _ _ _ _ H q k0 y Hq Hf0). intros [Hin|Hin]; [|exact (Hnin Hin)].
       subst q. rewrite Hp, path_eqb_refl in E. discriminate.
-  - rewrite Mm, Ml, Dl. destruct (v_root _ _ _ _ _ _ _ _ _ H) as [[r [Hr [Hfr [Hty Hl]]]]|[H1 [H2 [H3 H4]]]].
-    + left. exists r. rewrite Mty. auto.
-    + right. split; [exact H1|]. split; [|split; [exact H3|exact H4]].
-      rewrite Do; [exact H2|]. intro E. subst pid. exact (H3 kp Hfkp).
-  - intros q Hin. destruct (v_pend _ _ _ _ _ _ _ _ _ H q (or_intror Hin)) as [Hqne [k0 [x0 [mn0 [H1 [H2 [H3 H4]]]]]]].
+  - rewrite Mm, Ml, Dl. destruct (v_root _ _ _ _ _ _ _ _ H) as [Hl|[H1 [H2 [H3 H4]]]]; [left; exact Hl|right].
+    split; [exact H1|]. split; [|split; [exact H3|exact H4]].
+    rewrite Do; [exact H2|]. intro E. subst pid. exact (H3 kp Hfkp).
+  - intros q Hin. destruct (v_pend _ _ _ _ _ _ _ _ H q (or_intror Hin)) as [Hqne [k0 [x0 [mn0 [H1 [H2 [H3 H4]]]]]]].
     split; [exact Hqne|]. exists k0, x0, mn0. rewrite Mm. split; [exact H1|]. split; [exact H2|]. split; [|exact H4].
     rewrite Mo; [exact H3|]. intro E. subst k0. apply Hparn. right.
-    assert (q = par) by exact (Inv_pfun_name _ _ _ _ _ _ _ _ _ H _ _ _ H1 Hkp). subst q. exact Hin.
+    assert (q = par) by exact (Inv_pfun_name _ _ _ _ _ _ _ _ H _ _ _ H1 Hkp). subst q. exact Hin.
   - inversion HnodupP; assumption.
-  - intros j Hj. rewrite Ml. exact (v_np _ _ _ _ _ _ _ _ _ H j Hj).
-  - intros y Hy. rewrite Dl. exact (v_cp _ _ _ _ _ _ _ _ _ H y Hy).
-  - apply (v_h_transport toc i ms ds f h (p :: P') np cp ms' H).
-    + intros z mn Hz. destruct (Mfwd z mn Hz) as [mn' [E' [He Hc]]]. exists mn'. split; [exact E'|]. split; [exact He|].
-      intro Hnd. destruct (Nat.eq_dec z kp) as [->|Hne]; [contradiction|]. rewrite Mo in E' by exact Hne. congruence.
-    + intros q k0 Hq. rewrite Mm. exact Hq.
-    + apply psub_refl.
-    + intros k0 Hk0. destruct (h k0) as [o|] eqn:Eo; [|contradiction].
-      destruct (v_h _ _ _ _ _ _ _ _ _ H k0 o Eo) as [_ [_ [Hfn _]]]. exact Hfn.
-  - intros z mn Hz Hnd. destruct (Nat.eq_dec z kp) as [->|Hne].
-    + exfalso. rewrite Mp in Hz. inversion Hz; subst mn. simpl in Hnd. rewrite (ntype_nth ms kp mnp Hmnp) in Hkpdir. contradiction.
-    + rewrite Mo in Hz by exact Hne. exact (v_leaf _ _ _ _ _ _ _ _ _ H z mn Hz Hnd).
+  - intros j Hj. destruct (v_np _ _ _ _ _ _ _ _ H j Hj) as [p0 [[Hin|Hin] Hp0]].
+    + subst p0. rewrite Hk in Hp0. inversion Hp0; subst j. contradiction.
+    + exists p0. rewrite Mm. auto.
+  - intros y Hy. rewrite Dl. exact (v_cp _ _ _ _ _ _ _ _ H y Hy).
 Qed.
 
 (* ---------- creating an implicit directory in both stores (not yet linked) ---------- *)
@@ -469,42 +342,35 @@ Proof. intros f g np cp k x mn dn Hs [H1 [H2 [H3 H4]]]. split; [exact H1|]. spli
 Lemma pfind_cons : forall {B} (q d : list Z) (k : B) m, pfind q ((d, k) :: m) = if path_eqb q d then Some k else pfind q m.
 Proof. reflexivity. Qed.
 
-Lemma Inv_create : forall toc i ms ds f h P np cp d,
-  Inv toc i ms ds f h P np cp -> pfind d (ms_m ms) = None -> d <> [] -> Forall plain d -> ~ In d P ->
+Lemma Inv_create : forall toc i ms ds f P np cp d,
+  Inv toc i ms ds f P np cp -> pfind d (ms_m ms) = None -> d <> [] -> Forall plain d -> ~ In d P ->
   Inv toc i (MS (ms_nodes ms ++ [MN (implicit_dir d) 2 []]) ((d, length (ms_nodes ms)) :: ms_m ms))
-      (fst (d_new ds root_attr)) (pset f (length (ms_nodes ms)) (length (ds_nodes ds))) h (d :: P) np cp.
+      (fst (d_new ds root_attr)) (pset f (length (ms_nodes ms)) (length (ds_nodes ds))) (d :: P) np cp.
 Proof.
-  intros toc i ms ds f h P np cp d H Hnone Hdne Hplain HdP.
+  intros toc i ms ds f P np cp d H Hnone Hdne Hplain HdP.
   set (k := length (ms_nodes ms)). set (x := length (ds_nodes ds)).
   set (f' := pset f k x).
   assert (Hfk : f k = None).
-  { destruct (f k) as [y|] eqn:E; [|reflexivity]. destruct (v_dom _ _ _ _ _ _ _ _ _ H k y E) as [mn [_ [Hn _]]].
+  { destruct (f k) as [y|] eqn:E; [|reflexivity]. destruct (v_dom _ _ _ _ _ _ _ _ H k y E) as [mn [_ [Hn _]]].
     assert (nth_error (ms_nodes ms) k = None) by (apply nth_error_None; unfold k; lia). congruence. }
   assert (Hsub : psub f f') by (apply psub_pset; exact Hfk).
   assert (Hlt : forall q k0, pfind q (ms_m ms) = Some k0 -> (k0 < k)%nat).
-  { intros q k0 Hq. destruct (v_mdom _ _ _ _ _ _ _ _ _ H q k0 Hq) as [mn [Hn _]]. apply nth_error_Some. congruence. }
+  { intros q k0 Hq. destruct (v_mdom _ _ _ _ _ _ _ _ H q k0 Hq) as [mn [Hn _]]. apply nth_error_Some. congruence. }
   assert (Hflt : forall k0 y, f k0 = Some y -> (k0 < k)%nat /\ (y < x)%nat).
-  { intros k0 y E. destruct (v_dom _ _ _ _ _ _ _ _ _ H k0 y E) as [mn [dn [Hn [Hd _]]]].
+  { intros k0 y E. destruct (v_dom _ _ _ _ _ _ _ _ H k0 y E) as [mn [dn [Hn [Hd _]]]].
     split; apply nth_error_Some; congruence. }
   assert (Hf'old : forall k0, k0 <> k -> f' k0 = f k0) by (intros; apply pset_other; assumption).
   assert (Hqd : forall q k0, pfind q (ms_m ms) = Some k0 -> path_eqb q d = false).
   { intros q k0 Hq. apply path_eqb_neq. intro; subst q. congruence. }
   assert (Hdfind : forall q, d_find (fst (d_new ds root_attr)) q = d_find ds q).
-  { intro q. unfold d_new. simpl fst. apply d_find_app. exact (Inv_range _ _ _ _ _ _ _ _ _ H). }
+  { intro q. unfold d_new. simpl fst. apply d_find_app. exact (Inv_range _ _ _ _ _ _ _ _ H). }
   assert (Hlen1 : (1 <= x)%nat).
-  { destruct (v_root _ _ _ _ _ _ _ _ _ H) as [[r [_ [Hr _]]]|[_ [H0 _]]].
+  { destruct (v_root _ _ _ _ _ _ _ _ H) as [[r [_ [Hr _]]]|[_ [H0 _]]].
     - destruct (Hflt r O Hr). lia.
     - assert (0 < x)%nat by (apply nth_error_Some; congruence). lia. }
   assert (Hnpk : nadj np k = 0).
-  { unfold nadj. destruct np as [j|]; [|reflexivity]. destruct (v_np _ _ _ _ _ _ _ _ _ H j eq_refl) as [Hj _].
-    replace (Nat.eqb j k) with false by (symmetry; apply Nat.eqb_neq; unfold k; lia). reflexivity. }
-  assert (Hhk : h k = None).
-  { destruct (h k) as [o|] eqn:E; [|reflexivity]. destruct (v_h _ _ _ _ _ _ _ _ _ H k o E) as [_ [Hkn _]].
-    pose proof (v_lenm _ _ _ _ _ _ _ _ _ H). unfold k in Hkn. lia. }
-  assert (Hhf : forall k1 o, h k1 = Some o -> f o <> None).
-  { intros k1 o E. destruct (v_h _ _ _ _ _ _ _ _ _ H k1 o E) as [_ [_ [_ [_ [[x1 [mo [Hfo _]]] _]]]]]. congruence. }
-  assert (Mty : forall z, (z < k)%nat -> ntype (MS (ms_nodes ms ++ [MN (implicit_dir d) 2 []]) ((d, k) :: ms_m ms)) z = ntype ms z).
-  { intros z Hz. unfold ntype. cbn [ms_nodes]. rewrite nth_error_app1 by exact Hz. reflexivity. }
+  { unfold nadj. destruct np as [j|]; [|reflexivity]. destruct (v_np _ _ _ _ _ _ _ _ H j eq_refl) as [p0 [_ Hp0]].
+    apply Hlt in Hp0. replace (Nat.eqb j k) with false by (symmetry; apply Nat.eqb_neq; lia). reflexivity. }
   assert (Dn : forall z, (z < x)%nat -> nth_error (ds_nodes (fst (d_new ds root_attr))) z = nth_error (ds_nodes ds) z)
     by (intros z Hz; unfold d_new; simpl; apply nth_error_app1; exact Hz).
   assert (Dx : nth_error (ds_nodes (fst (d_new ds root_attr))) x = Some (DN (write_attr root_attr) [] []))
@@ -514,57 +380,51 @@ Proof.
   assert (Mk : nth_error (ms_nodes ms ++ [MN (implicit_dir d) 2 []]) k = Some (MN (implicit_dir d) 2 []))
     by (rewrite nth_error_app2 by (unfold k; lia); unfold k; rewrite Nat.sub_diag; reflexivity).
   constructor; cbn [ms_nodes ms_m].
-  - rewrite app_length. pose proof (v_lenm _ _ _ _ _ _ _ _ _ H). lia.
-  - simpl length. pose proof (v_mlen _ _ _ _ _ _ _ _ _ H). lia.
-  - intros j e Hj. rewrite pfind_cons. pose proof (v_expl _ _ _ _ _ _ _ _ _ H j e Hj) as Hp. rewrite (Hqd _ _ Hp). exact Hp.
+  - rewrite app_length. pose proof (v_lenm _ _ _ _ _ _ _ _ H). lia.
+  - intros j e Hj. rewrite pfind_cons. pose proof (v_expl _ _ _ _ _ _ _ _ H j e Hj) as Hp. rewrite (Hqd _ _ Hp). exact Hp.
   - intros q k0 Hq. rewrite pfind_cons in Hq. destruct (path_eqb q d) eqn:E.
     + apply path_eqb_eq in E. inversion Hq; subst. eexists. split; [exact Mk|]. apply cname_implicit. exact Hplain.
-    + destruct (v_mdom _ _ _ _ _ _ _ _ _ H q k0 Hq) as [mn [Hn Hc]]. exists mn. split; [|exact Hc].
+    + destruct (v_mdom _ _ _ _ _ _ _ _ H q k0 Hq) as [mn [Hn Hc]]. exists mn. split; [|exact Hc].
       rewrite Mn; [exact Hn|]. exact (Hlt q k0 Hq).
-  - intros j mn Hj Hn. pose proof (v_lenm _ _ _ _ _ _ _ _ _ H). rewrite Mn in Hn by (unfold k; lia).
-    exact (v_ent _ _ _ _ _ _ _ _ _ H j mn Hj Hn).
+  - intros j mn Hj Hn. pose proof (v_lenm _ _ _ _ _ _ _ _ H). rewrite Mn in Hn by (unfold k; lia).
+    exact (v_ent _ _ _ _ _ _ _ _ H j mn Hj Hn).
   - intros k0 mn Hk0 Hn. destruct (Nat.lt_ge_cases k0 k) as [Hl|Hg].
-    + rewrite Mn in Hn by exact Hl. destruct (v_impl _ _ _ _ _ _ _ _ _ H k0 mn Hk0 Hn) as [Hd Hf0]. split; [exact Hd|].
+    + rewrite Mn in Hn by exact Hl. destruct (v_impl _ _ _ _ _ _ _ _ H k0 mn Hk0 Hn) as [Hd Hf0]. split; [exact Hd|].
       rewrite Hf'old by lia. exact Hf0.
     + destruct (Nat.eq_dec k0 k) as [->|Hne].
       * rewrite Mk in Hn. inversion Hn; subst mn. split; [exists d; reflexivity|]. unfold f'. rewrite pset_same. discriminate.
       * assert (nth_error (ms_nodes ms ++ [MN (implicit_dir d) 2 []]) k0 = None)
           by (apply nth_error_None; rewrite app_length; simpl; unfold k in *; lia). congruence.
-  - intros j mn Hj Hn. pose proof (v_lenm _ _ _ _ _ _ _ _ _ H). rewrite Mn in Hn by (unfold k; lia).
-    rewrite Hf'old by (unfold k; lia). exact (v_todo _ _ _ _ _ _ _ _ _ H j mn Hj Hn).
-  - exact (v_htodo _ _ _ _ _ _ _ _ _ H).
-  - intros j Hj Hjn. pose proof (v_lenm _ _ _ _ _ _ _ _ _ H). rewrite Hf'old by (unfold k; lia).
-    exact (v_done _ _ _ _ _ _ _ _ _ H j Hj Hjn).
+  - intros j mn Hj Hn. pose proof (v_lenm _ _ _ _ _ _ _ _ H). rewrite Mn in Hn by (unfold k; lia).
+    rewrite Hf'old by (unfold k; lia). exact (v_todo _ _ _ _ _ _ _ _ H j mn Hj Hn).
+  - intros j Hj Hjn. pose proof (v_lenm _ _ _ _ _ _ _ _ H). rewrite Hf'old by (unfold k; lia).
+    exact (v_done _ _ _ _ _ _ _ _ H j Hj Hjn).
   - intros k0 x0 Hf0. destruct (Nat.eq_dec k0 k) as [->|Hne].
     + unfold f' in Hf0. rewrite pset_same in Hf0. inversion Hf0; subst x0.
       eexists. eexists. split; [exact Mk|]. split; [exact Dx|].
       unfold nrel. cbn [mn_e mn_nlink mn_ch dn_b dn_ch dn_chunks]. rewrite Hnpk.
       split; [reflexivity|]. split; [lia|]. split; [constructor|]. split; [intros _; reflexivity|intros _; reflexivity].
     + rewrite Hf'old in Hf0 by exact Hne. destruct (Hflt k0 x0 Hf0) as [Hk0 Hx0].
-      destruct (v_dom _ _ _ _ _ _ _ _ _ H k0 x0 Hf0) as [mn [dn [Hn [Hd Hr]]]].
+      destruct (v_dom _ _ _ _ _ _ _ _ H k0 x0 Hf0) as [mn [dn [Hn [Hd Hr]]]].
       exists mn, dn. split; [rewrite Mn by exact Hk0; exact Hn|]. split; [rewrite Dn by exact Hx0; exact Hd|].
       exact (nrel_mono f f' _ _ _ _ _ _ Hsub Hr).
-  - intros k0 x0 Hf0. destruct (Nat.eq_dec k0 k) as [->|Hne].
-    + unfold ntype. cbn [ms_nodes]. rewrite Mk. simpl. discriminate.
-    + rewrite Hf'old in Hf0 by exact Hne. destruct (Hflt k0 x0 Hf0) as [Hk0 _]. rewrite Mty by exact Hk0.
-      exact (v_ftype _ _ _ _ _ _ _ _ _ H k0 x0 Hf0).
   - intros k0 k1 y H0 H1. destruct (Nat.eq_dec k0 k) as [->|Hne0]; destruct (Nat.eq_dec k1 k) as [->|Hne1]; try reflexivity.
     + unfold f' in H0. rewrite pset_same in H0. inversion H0; subst y. rewrite Hf'old in H1 by exact Hne1.
       destruct (Hflt k1 x H1). lia.
     + unfold f' in H1. rewrite pset_same in H1. inversion H1; subst y. rewrite Hf'old in H0 by exact Hne0.
       destruct (Hflt k0 x H0). lia.
-    + rewrite Hf'old in H0, H1 by assumption. exact (v_inj _ _ _ _ _ _ _ _ _ H k0 k1 y H0 H1).
-  - intros q y Hq Hqne. rewrite Hdfind in Hq. destruct (v_L1 _ _ _ _ _ _ _ _ _ H q y Hq Hqne) as [k0 [H1 [H2 H3]]].
-    exists k0. rewrite pfind_cons, (Hqd _ _ H1). split; [exact H1|]. split; [apply fx_pset; assumption|].
+    + rewrite Hf'old in H0, H1 by assumption. exact (v_inj _ _ _ _ _ _ _ _ H k0 k1 y H0 H1).
+  - intros q y Hq Hqne. rewrite Hdfind in Hq. destruct (v_L1 _ _ _ _ _ _ _ _ H q y Hq Hqne) as [k0 [H1 [H2 H3]]].
+    exists k0. rewrite pfind_cons, (Hqd _ _ H1). split; [exact H1|]. split; [apply Hsub; exact H2|].
     intros [E|Hin]; [subst q; congruence|exact (H3 Hin)].
   - intros q k0 y Hq Hf0 Hnin. rewrite Hdfind. rewrite pfind_cons in Hq. destruct (path_eqb q d) eqn:E.
     + apply path_eqb_eq in E. subst q. exfalso. apply Hnin. left. reflexivity.
-    + pose proof (Hlt q k0 Hq). apply (fx_pset_inv f h k x k0 y Hhf Hfk) in Hf0; [|lia].
-      apply (v_L2 _ _ _ _ _ _ _ _ _ H q k0 y Hq Hf0). intro Hin. apply Hnin. right. exact Hin.
+    + pose proof (Hlt q k0 Hq). rewrite Hf'old in Hf0 by lia.
+      apply (v_L2 _ _ _ _ _ _ _ _ H q k0 y Hq Hf0). intro Hin. apply Hnin. right. exact Hin.
   - rewrite pfind_cons. rewrite (path_eqb_neq [] d) by (intro E; apply Hdne; symmetry; exact E).
     rewrite app_length. simpl length. unfold d_new. cbn [fst d_set_nodes ds_nodes]. rewrite app_length. simpl length.
-    destruct (v_root _ _ _ _ _ _ _ _ _ H) as [[r [Hr [Hfr [Hty Hl]]]]|[H1 [H2 [H3 H4]]]].
-    + left. exists r. split; [exact Hr|]. split; [apply Hsub; exact Hfr|]. split; [rewrite Mty by exact (Hlt _ _ Hr); exact Hty|]. fold x in Hl. fold k in Hl. lia.
+    destruct (v_root _ _ _ _ _ _ _ _ H) as [[r [Hr [Hfr Hl]]]|[H1 [H2 [H3 H4]]]].
+    + left. exists r. split; [exact Hr|]. split; [apply Hsub; exact Hfr|]. lia.
     + right. split.
       { destruct H1 as [H1|[r0 [Hr0 Hfr0]]]; [left; exact H1|right]. exists r0. split; [exact Hr0|].
         rewrite Hf'old; [exact Hfr0|]. pose proof (Hlt _ _ Hr0). lia. }
@@ -575,128 +435,91 @@ Proof.
   - intros q [E|Hin].
     + subst q. split; [exact Hdne|]. exists k, x, (MN (implicit_dir d) 2 []). rewrite pfind_cons, path_eqb_refl.
       split; [reflexivity|]. split; [unfold f'; apply pset_same|]. split; [exact Mk|reflexivity].
-    + destruct (v_pend _ _ _ _ _ _ _ _ _ H q Hin) as [Hqne [k0 [x0 [mn0 [H1 [H2 [H3 H4]]]]]]].
+    + destruct (v_pend _ _ _ _ _ _ _ _ H q Hin) as [Hqne [k0 [x0 [mn0 [H1 [H2 [H3 H4]]]]]]].
       split; [exact Hqne|]. exists k0, x0, mn0. rewrite pfind_cons, (Hqd _ _ H1).
       split; [exact H1|]. split; [apply Hsub; exact H2|]. split; [rewrite Mn by exact (Hlt _ _ H1); exact H3|exact H4].
-  - constructor; [exact HdP|exact (v_nodupP _ _ _ _ _ _ _ _ _ H)].
-  - intros j Hj. destruct (v_np _ _ _ _ _ _ _ _ _ H j Hj) as [Hjl Hjf]. rewrite app_length. split; [lia|].
-    rewrite Hf'old by (unfold k; lia). exact Hjf.
-  - intros y Hy. pose proof (v_cp _ _ _ _ _ _ _ _ _ H y Hy). unfold d_new. cbn [fst d_set_nodes ds_nodes]. rewrite app_length. lia.
-  - intros k0 o Hk0.
-    refine (v_h_transport toc i ms ds f h P np cp (MS (ms_nodes ms ++ [MN (implicit_dir d) 2 []]) ((d, k) :: ms_m ms)) H _ _ f' Hsub _ k0 o Hk0).
-    + intros z mn Hz. exists mn. assert (z < k)%nat by (apply nth_error_Some; congruence).
-      split; [cbn [ms_nodes]; rewrite Mn by assumption; exact Hz|]. auto.
-    + intros q k1 Hq. cbn [ms_m]. rewrite pfind_cons, (Hqd _ _ Hq). exact Hq.
-    + intros k1 Hk1. destruct (h k1) as [o1|] eqn:Eo; [|contradiction].
-      destruct (v_h _ _ _ _ _ _ _ _ _ H k1 o1 Eo) as [_ [Hkn [Hfn _]]]. pose proof (v_lenm _ _ _ _ _ _ _ _ _ H).
-      rewrite Hf'old by (unfold k; lia). exact Hfn.
-  - intros z mn Hz Hnd. destruct (Nat.lt_ge_cases z k) as [Hl|Hg].
-    + rewrite Mn in Hz by exact Hl. exact (v_leaf _ _ _ _ _ _ _ _ _ H z mn Hz Hnd).
-    + destruct (Nat.eq_dec z k) as [->|Hne]; [rewrite Mk in Hz; inversion Hz; reflexivity|].
-      assert (nth_error (ms_nodes ms ++ [MN (implicit_dir d) 2 []]) z = None) by (apply nth_error_None; rewrite app_length; simpl; unfold k in *; lia). congruence.
+  - constructor; [exact HdP|exact (v_nodupP _ _ _ _ _ _ _ _ H)].
+  - intros j Hj. destruct (v_np _ _ _ _ _ _ _ _ H j Hj) as [p0 [Hin Hp0]]. exists p0. split; [right; exact Hin|].
+    rewrite pfind_cons, (Hqd _ _ Hp0). exact Hp0.
+  - intros y Hy. pose proof (v_cp _ _ _ _ _ _ _ _ H y Hy). unfold d_new. cbn [fst d_set_nodes ds_nodes]. rewrite app_length. lia.
 Qed.
 
 (* the memory store creates its root lazily; the db store has had it from the start *)
-Lemma Inv_root_create : forall toc i ms ds f h P np cp,
-  Inv toc i ms ds f h P np cp -> pfind [] (ms_m ms) = None ->
+Lemma Inv_root_create : forall toc i ms ds f P np cp,
+  Inv toc i ms ds f P np cp -> pfind [] (ms_m ms) = None ->
   Inv toc i (MS (ms_nodes ms ++ [MN (implicit_dir []) 2 []]) (([], length (ms_nodes ms)) :: ms_m ms))
-      ds (pset f (length (ms_nodes ms)) O) h P np cp.
+      ds (pset f (length (ms_nodes ms)) O) P np cp.
 Proof.
-  intros toc i ms ds f h P np cp H Hnone.
+  intros toc i ms ds f P np cp H Hnone.
   set (k := length (ms_nodes ms)). set (f' := pset f k O).
-  destruct (v_root _ _ _ _ _ _ _ _ _ H) as [[r [Hr _]]|[_ [Hroot [Hno Hlen]]]]; [congruence|].
+  destruct (v_root _ _ _ _ _ _ _ _ H) as [[r [Hr _]]|[_ [Hroot [Hno Hlen]]]]; [congruence|].
   assert (Hfk : f k = None).
-  { destruct (f k) as [y|] eqn:E; [|reflexivity]. destruct (v_dom _ _ _ _ _ _ _ _ _ H k y E) as [mn [_ [Hn _]]].
+  { destruct (f k) as [y|] eqn:E; [|reflexivity]. destruct (v_dom _ _ _ _ _ _ _ _ H k y E) as [mn [_ [Hn _]]].
     assert (nth_error (ms_nodes ms) k = None) by (apply nth_error_None; unfold k; lia). congruence. }
   assert (Hsub : psub f f') by (apply psub_pset; exact Hfk).
   assert (Hlt : forall q k0, pfind q (ms_m ms) = Some k0 -> (k0 < k)%nat).
-  { intros q k0 Hq. destruct (v_mdom _ _ _ _ _ _ _ _ _ H q k0 Hq) as [mn [Hn _]]. apply nth_error_Some. congruence. }
+  { intros q k0 Hq. destruct (v_mdom _ _ _ _ _ _ _ _ H q k0 Hq) as [mn [Hn _]]. apply nth_error_Some. congruence. }
   assert (Hflt : forall k0 y, f k0 = Some y -> (k0 < k)%nat).
-  { intros k0 y E. destruct (v_dom _ _ _ _ _ _ _ _ _ H k0 y E) as [mn [dn [Hn _]]]. apply nth_error_Some. congruence. }
+  { intros k0 y E. destruct (v_dom _ _ _ _ _ _ _ _ H k0 y E) as [mn [dn [Hn _]]]. apply nth_error_Some. congruence. }
   assert (Hf'old : forall k0, k0 <> k -> f' k0 = f k0) by (intros; apply pset_other; assumption).
   assert (Hqd : forall q k0, pfind q (ms_m ms) = Some k0 -> path_eqb q [] = false).
   { intros q k0 Hq. apply path_eqb_neq. intro; subst q. congruence. }
   assert (Hnpk : nadj np k = 0).
-  { unfold nadj. destruct np as [j|]; [|reflexivity]. destruct (v_np _ _ _ _ _ _ _ _ _ H j eq_refl) as [Hj _].
-    replace (Nat.eqb j k) with false by (symmetry; apply Nat.eqb_neq; unfold k; lia). reflexivity. }
-  assert (Hhk : h k = None).
-  { destruct (h k) as [o|] eqn:E; [|reflexivity]. destruct (v_h _ _ _ _ _ _ _ _ _ H k o E) as [_ [Hkn _]].
-    pose proof (v_lenm _ _ _ _ _ _ _ _ _ H). unfold k in Hkn. lia. }
-  assert (Hhf : forall k1 o, h k1 = Some o -> f o <> None).
-  { intros k1 o E. destruct (v_h _ _ _ _ _ _ _ _ _ H k1 o E) as [_ [_ [_ [_ [[x1 [mo [Hfo _]]] _]]]]]. congruence. }
-  assert (Mty : forall z, (z < k)%nat -> ntype (MS (ms_nodes ms ++ [MN (implicit_dir []) 2 []]) (([], k) :: ms_m ms)) z = ntype ms z).
-  { intros z Hz. unfold ntype. cbn [ms_nodes]. rewrite nth_error_app1 by exact Hz. reflexivity. }
+  { unfold nadj. destruct np as [j|]; [|reflexivity]. destruct (v_np _ _ _ _ _ _ _ _ H j eq_refl) as [p0 [_ Hp0]].
+    apply Hlt in Hp0. replace (Nat.eqb j k) with false by (symmetry; apply Nat.eqb_neq; lia). reflexivity. }
   assert (Mn : forall z, (z < k)%nat -> nth_error (ms_nodes ms ++ [MN (implicit_dir []) 2 []]) z = nth_error (ms_nodes ms) z)
     by (intros z Hz; apply nth_error_app1; exact Hz).
   assert (Mk : nth_error (ms_nodes ms ++ [MN (implicit_dir []) 2 []]) k = Some (MN (implicit_dir []) 2 []))
     by (rewrite nth_error_app2 by (unfold k; lia); unfold k; rewrite Nat.sub_diag; reflexivity).
   constructor; cbn [ms_nodes ms_m].
-  - rewrite app_length. pose proof (v_lenm _ _ _ _ _ _ _ _ _ H). lia.
-  - simpl length. pose proof (v_mlen _ _ _ _ _ _ _ _ _ H). lia.
-  - intros j e Hj. rewrite pfind_cons. pose proof (v_expl _ _ _ _ _ _ _ _ _ H j e Hj) as Hp. rewrite (Hqd _ _ Hp). exact Hp.
+  - rewrite app_length. pose proof (v_lenm _ _ _ _ _ _ _ _ H). lia.
+  - intros j e Hj. rewrite pfind_cons. pose proof (v_expl _ _ _ _ _ _ _ _ H j e Hj) as Hp. rewrite (Hqd _ _ Hp). exact Hp.
   - intros q k0 Hq. rewrite pfind_cons in Hq. destruct (path_eqb q []) eqn:E.
     + apply path_eqb_eq in E. inversion Hq; subst. eexists. split; [exact Mk|]. reflexivity.
-    + destruct (v_mdom _ _ _ _ _ _ _ _ _ H q k0 Hq) as [mn [Hn Hc]]. exists mn. split; [|exact Hc].
+    + destruct (v_mdom _ _ _ _ _ _ _ _ H q k0 Hq) as [mn [Hn Hc]]. exists mn. split; [|exact Hc].
       rewrite Mn; [exact Hn|]. exact (Hlt q k0 Hq).
-  - intros j mn Hj Hn. pose proof (v_lenm _ _ _ _ _ _ _ _ _ H). rewrite Mn in Hn by (unfold k; lia).
-    exact (v_ent _ _ _ _ _ _ _ _ _ H j mn Hj Hn).
+  - intros j mn Hj Hn. pose proof (v_lenm _ _ _ _ _ _ _ _ H). rewrite Mn in Hn by (unfold k; lia).
+    exact (v_ent _ _ _ _ _ _ _ _ H j mn Hj Hn).
   - intros k0 mn Hk0 Hn. destruct (Nat.lt_ge_cases k0 k) as [Hl|Hg].
-    + rewrite Mn in Hn by exact Hl. destruct (v_impl _ _ _ _ _ _ _ _ _ H k0 mn Hk0 Hn) as [Hd Hf0]. split; [exact Hd|].
+    + rewrite Mn in Hn by exact Hl. destruct (v_impl _ _ _ _ _ _ _ _ H k0 mn Hk0 Hn) as [Hd Hf0]. split; [exact Hd|].
       rewrite Hf'old by lia. exact Hf0.
     + destruct (Nat.eq_dec k0 k) as [->|Hne].
       * rewrite Mk in Hn. inversion Hn; subst mn. split; [exists []; reflexivity|]. unfold f'. rewrite pset_same. discriminate.
       * assert (nth_error (ms_nodes ms ++ [MN (implicit_dir []) 2 []]) k0 = None)
           by (apply nth_error_None; rewrite app_length; simpl; unfold k in *; lia). congruence.
-  - intros j mn Hj Hn. pose proof (v_lenm _ _ _ _ _ _ _ _ _ H). rewrite Mn in Hn by (unfold k; lia).
-    rewrite Hf'old by (unfold k; lia). exact (v_todo _ _ _ _ _ _ _ _ _ H j mn Hj Hn).
-  - exact (v_htodo _ _ _ _ _ _ _ _ _ H).
-  - intros j Hj Hjn. pose proof (v_lenm _ _ _ _ _ _ _ _ _ H). rewrite Hf'old by (unfold k; lia).
-    exact (v_done _ _ _ _ _ _ _ _ _ H j Hj Hjn).
+  - intros j mn Hj Hn. pose proof (v_lenm _ _ _ _ _ _ _ _ H). rewrite Mn in Hn by (unfold k; lia).
+    rewrite Hf'old by (unfold k; lia). exact (v_todo _ _ _ _ _ _ _ _ H j mn Hj Hn).
+  - intros j Hj Hjn. pose proof (v_lenm _ _ _ _ _ _ _ _ H). rewrite Hf'old by (unfold k; lia).
+    exact (v_done _ _ _ _ _ _ _ _ H j Hj Hjn).
   - intros k0 x0 Hf0. destruct (Nat.eq_dec k0 k) as [->|Hne].
     + unfold f' in Hf0. rewrite pset_same in Hf0. inversion Hf0; subst x0.
       eexists. eexists. split; [exact Mk|]. split; [exact Hroot|].
       unfold nrel. cbn [mn_e mn_nlink mn_ch dn_b dn_ch dn_chunks]. rewrite Hnpk.
       split; [reflexivity|]. split; [lia|]. split; [constructor|]. split; [intros _; reflexivity|intros _; reflexivity].
     + rewrite Hf'old in Hf0 by exact Hne. pose proof (Hflt k0 x0 Hf0) as Hk0.
-      destruct (v_dom _ _ _ _ _ _ _ _ _ H k0 x0 Hf0) as [mn [dn [Hn [Hd Hr]]]].
+      destruct (v_dom _ _ _ _ _ _ _ _ H k0 x0 Hf0) as [mn [dn [Hn [Hd Hr]]]].
       exists mn, dn. split; [rewrite Mn by exact Hk0; exact Hn|]. split; [exact Hd|].
       exact (nrel_mono f f' _ _ _ _ _ _ Hsub Hr).
-  - intros k0 x0 Hf0. destruct (Nat.eq_dec k0 k) as [->|Hne].
-    + unfold ntype. cbn [ms_nodes]. rewrite Mk. simpl. discriminate.
-    + rewrite Hf'old in Hf0 by exact Hne. pose proof (Hflt k0 x0 Hf0) as Hk0. rewrite Mty by exact Hk0.
-      exact (v_ftype _ _ _ _ _ _ _ _ _ H k0 x0 Hf0).
   - intros k0 k1 y H0 H1. destruct (Nat.eq_dec k0 k) as [->|Hne0]; destruct (Nat.eq_dec k1 k) as [->|Hne1]; try reflexivity.
     + unfold f' in H0. rewrite pset_same in H0. inversion H0; subst y. rewrite Hf'old in H1 by exact Hne1.
       exfalso. exact (Hno k1 H1).
     + unfold f' in H1. rewrite pset_same in H1. inversion H1; subst y. rewrite Hf'old in H0 by exact Hne0.
       exfalso. exact (Hno k0 H0).
-    + rewrite Hf'old in H0, H1 by assumption. exact (v_inj _ _ _ _ _ _ _ _ _ H k0 k1 y H0 H1).
-  - intros q y Hq Hqne. destruct (v_L1 _ _ _ _ _ _ _ _ _ H q y Hq Hqne) as [k0 [H1 [H2 H3]]].
-    exists k0. rewrite pfind_cons, (Hqd _ _ H1). split; [exact H1|]. split; [apply fx_pset; assumption|exact H3].
+    + rewrite Hf'old in H0, H1 by assumption. exact (v_inj _ _ _ _ _ _ _ _ H k0 k1 y H0 H1).
+  - intros q y Hq Hqne. destruct (v_L1 _ _ _ _ _ _ _ _ H q y Hq Hqne) as [k0 [H1 [H2 H3]]].
+    exists k0. rewrite pfind_cons, (Hqd _ _ H1). split; [exact H1|]. split; [apply Hsub; exact H2|exact H3].
   - intros q k0 y Hq Hf0 Hnin. rewrite pfind_cons in Hq. destruct (path_eqb q []) eqn:E.
-    + apply path_eqb_eq in E. subst q. inversion Hq; subst k0. unfold fx, f' in Hf0. rewrite pset_same in Hf0. inversion Hf0. reflexivity.
-    + pose proof (Hlt q k0 Hq). apply (fx_pset_inv f h k O k0 y Hhf Hfk) in Hf0; [|lia]. exact (v_L2 _ _ _ _ _ _ _ _ _ H q k0 y Hq Hf0 Hnin).
+    + apply path_eqb_eq in E. subst q. inversion Hq; subst k0. unfold f' in Hf0. rewrite pset_same in Hf0. inversion Hf0. reflexivity.
+    + pose proof (Hlt q k0 Hq). rewrite Hf'old in Hf0 by lia. exact (v_L2 _ _ _ _ _ _ _ _ H q k0 y Hq Hf0 Hnin).
   - left. exists k. rewrite pfind_cons. simpl. split; [reflexivity|]. split; [unfold f'; apply pset_same|].
-    split; [unfold ntype; cbn [ms_nodes]; rewrite Mk; reflexivity|]. rewrite app_length. simpl. fold k. lia.
-  - intros q Hin. destruct (v_pend _ _ _ _ _ _ _ _ _ H q Hin) as [Hqne [k0 [x0 [mn0 [H1 [H2 [H3 H4]]]]]]].
+    rewrite app_length. simpl. fold k. lia.
+  - intros q Hin. destruct (v_pend _ _ _ _ _ _ _ _ H q Hin) as [Hqne [k0 [x0 [mn0 [H1 [H2 [H3 H4]]]]]]].
     split; [exact Hqne|]. exists k0, x0, mn0. rewrite pfind_cons, (Hqd _ _ H1).
     split; [exact H1|]. split; [apply Hsub; exact H2|]. split; [rewrite Mn by exact (Hlt _ _ H1); exact H3|exact H4].
-  - exact (v_nodupP _ _ _ _ _ _ _ _ _ H).
-  - intros j Hj. destruct (v_np _ _ _ _ _ _ _ _ _ H j Hj) as [Hjl Hjf]. rewrite app_length. split; [lia|].
-    rewrite Hf'old by (unfold k; lia). exact Hjf.
-  - exact (v_cp _ _ _ _ _ _ _ _ _ H).
-  - intros k0 o Hk0.
-    refine (v_h_transport toc i ms ds f h P np cp (MS (ms_nodes ms ++ [MN (implicit_dir []) 2 []]) (([], k) :: ms_m ms)) H _ _ f' Hsub _ k0 o Hk0).
-    + intros z mn Hz. exists mn. assert (z < k)%nat by (apply nth_error_Some; congruence).
-      split; [cbn [ms_nodes]; rewrite Mn by assumption; exact Hz|]. auto.
-    + intros q k1 Hq. cbn [ms_m]. rewrite pfind_cons, (Hqd _ _ Hq). exact Hq.
-    + intros k1 Hk1. destruct (h k1) as [o1|] eqn:Eo; [|contradiction].
-      destruct (v_h _ _ _ _ _ _ _ _ _ H k1 o1 Eo) as [_ [Hkn [Hfn _]]]. pose proof (v_lenm _ _ _ _ _ _ _ _ _ H).
-      rewrite Hf'old by (unfold k; lia). exact Hfn.
-  - intros z mn Hz Hnd. destruct (Nat.lt_ge_cases z k) as [Hl|Hg].
-    + rewrite Mn in Hz by exact Hl. exact (v_leaf _ _ _ _ _ _ _ _ _ H z mn Hz Hnd).
-    + destruct (Nat.eq_dec z k) as [->|Hne]; [rewrite Mk in Hz; inversion Hz; reflexivity|].
-      assert (nth_error (ms_nodes ms ++ [MN (implicit_dir []) 2 []]) z = None) by (apply nth_error_None; rewrite app_length; simpl; unfold k in *; lia). congruence.
+  - exact (v_nodupP _ _ _ _ _ _ _ _ H).
+  - intros j Hj. destruct (v_np _ _ _ _ _ _ _ _ H j Hj) as [p0 [Hin Hp0]]. exists p0. split; [exact Hin|].
+    rewrite pfind_cons, (Hqd _ _ Hp0). exact Hp0.
+  - exact (v_cp _ _ _ _ _ _ _ _ H).
 Qed.
 
 (* ---------- getOrCreateDir of both stores ---------- *)
@@ -724,78 +547,71 @@ Lemma d_goc_cons_none : forall s b t, d_find s (b :: t) = None ->
   let '(s2, pid) := d_goc s1 t in (d_set_child s2 pid b k true, k).
 Proof. intros s b t H. cbn [d_goc]. rewrite H. reflexivity. Qed.
 
-Lemma goc_sim : forall toc i h np cp d ms ds f P,
-  Inv toc i ms ds f h P np cp -> Forall plain d ->
+Lemma goc_sim : forall toc i np cp d ms ds f P,
+  Inv toc i ms ds f P np cp -> Forall plain d ->
   (forall q k, sfx q d -> pfind q (ms_m ms) = Some k -> f k <> None) ->
   (forall q, sfx q d -> ~ In q P) ->
-  (forall q k, sfx q d -> pfind q (ms_m ms) = Some k -> ntype ms k = TDir) ->
   exists ms' ds' f' kp pid,
-    m_goc ms d = (ms', kp) /\ d_goc ds d = (ds', pid) /\ Inv toc i ms' ds' f' h P np cp /\
+    m_goc ms d = (ms', kp) /\ d_goc ds d = (ds', pid) /\ Inv toc i ms' ds' f' P np cp /\
     pfind d (ms_m ms') = Some kp /\ f' kp = Some pid /\ psub f f' /\
-    (forall q k, pfind q (ms_m ms) = Some k -> pfind q (ms_m ms') = Some k) /\ ntype ms' kp = TDir.
+    (forall q k, pfind q (ms_m ms) = Some k -> pfind q (ms_m ms') = Some k).
 Proof.
-  intros toc i h np cp. induction d as [|b t IH]; intros ms ds f P H Hplain Hanc HnP Hdir.
+  intros toc i np cp. induction d as [|b t IH]; intros ms ds f P H Hplain Hanc HnP.
   - destruct (pfind [] (ms_m ms)) as [r|] eqn:Er.
     + destruct (f r) as [y|] eqn:Ey; [|exfalso; exact (Hanc [] r (sfx_refl []) Er Ey)].
-      pose proof (v_L2 _ _ _ _ _ _ _ _ _ H [] r y Er (fx_f f h r y Ey) (HnP [] (sfx_refl []))) as Hd. simpl in Hd. inversion Hd; subst y.
+      pose proof (v_L2 _ _ _ _ _ _ _ _ H [] r y Er Ey (HnP [] (sfx_refl []))) as Hd. simpl in Hd. inversion Hd; subst y.
       exists ms, ds, f, r, O. rewrite (m_goc_found ms [] r Er).
-      split; [reflexivity|]. split; [reflexivity|]. split; [exact H|]. split; [exact Er|]. split; [exact Ey|]. split; [apply psub_refl|].
-      split; [auto|exact (Hdir [] r (sfx_refl []) Er)].
-    + pose proof (Inv_root_create _ _ _ _ _ _ _ _ _ H Er) as H1.
+      split; [reflexivity|]. split; [reflexivity|]. split; [exact H|]. split; [exact Er|]. split; [exact Ey|]. split; [apply psub_refl|auto].
+    + pose proof (Inv_root_create _ _ _ _ _ _ _ _ H Er) as H1.
       eexists. exists ds. eexists. exists (length (ms_nodes ms)), O.
       split; [simpl; rewrite Er; reflexivity|]. split; [reflexivity|]. split; [exact H1|].
       cbn [ms_m]. split; [rewrite pfind_cons; reflexivity|]. split; [apply pset_same|]. split.
       * apply psub_pset. destruct (f (length (ms_nodes ms))) as [y|] eqn:E; [|reflexivity].
-        destruct (v_dom _ _ _ _ _ _ _ _ _ H _ y E) as [mn [_ [Hn _]]].
+        destruct (v_dom _ _ _ _ _ _ _ _ H _ y E) as [mn [_ [Hn _]]].
         assert (nth_error (ms_nodes ms) (length (ms_nodes ms)) = None) by (apply nth_error_None; lia). congruence.
-      * split; [intros q k Hq; rewrite pfind_cons; rewrite path_eqb_neq; [exact Hq|]; intro; subst q; congruence|].
-        unfold ntype. cbn [ms_nodes]. rewrite nth_error_app2 by lia. rewrite Nat.sub_diag. reflexivity.
+      * intros q k Hq. rewrite pfind_cons. rewrite path_eqb_neq; [exact Hq|]. intro; subst q. congruence.
   - set (d := b :: t) in *.
     destruct (pfind d (ms_m ms)) as [k0|] eqn:Ek.
     + destruct (f k0) as [y|] eqn:Ey; [|exfalso; exact (Hanc d k0 (sfx_refl d) Ek Ey)].
-      pose proof (v_L2 _ _ _ _ _ _ _ _ _ H d k0 y Ek (fx_f f h k0 y Ey) (HnP d (sfx_refl d))) as Hd.
+      pose proof (v_L2 _ _ _ _ _ _ _ _ H d k0 y Ek Ey (HnP d (sfx_refl d))) as Hd.
       exists ms, ds, f, k0, y. rewrite (m_goc_found ms d k0 Ek), (d_goc_found ds d y Hd).
-      split; [reflexivity|]. split; [reflexivity|]. split; [exact H|]. split; [exact Ek|]. split; [exact Ey|]. split; [apply psub_refl|].
-      split; [auto|exact (Hdir d k0 (sfx_refl d) Ek)].
+      split; [reflexivity|]. split; [reflexivity|]. split; [exact H|]. split; [exact Ek|]. split; [exact Ey|]. split; [apply psub_refl|auto].
     + assert (Ed : d_find ds d = None).
       { destruct (d_find ds d) as [y|] eqn:E; [|reflexivity].
-        destruct (v_L1 _ _ _ _ _ _ _ _ _ H d y E ltac:(discriminate)) as [k0 [Hk0 _]]. congruence. }
+        destruct (v_L1 _ _ _ _ _ _ _ _ H d y E ltac:(discriminate)) as [k0 [Hk0 _]]. congruence. }
       set (k := length (ms_nodes ms)). set (x := length (ds_nodes ds)).
       assert (HdP : ~ In d P) by exact (HnP d (sfx_refl d)).
-      pose proof (Inv_create _ _ _ _ _ _ _ _ _ d H Ek ltac:(discriminate) Hplain HdP) as H1.
+      pose proof (Inv_create _ _ _ _ _ _ _ _ d H Ek ltac:(discriminate) Hplain HdP) as H1.
       set (ms1 := MS (ms_nodes ms ++ [MN (implicit_dir d) 2 []]) ((d, k) :: ms_m ms)) in *.
       set (ds1 := fst (d_new ds root_attr)) in *. set (f1 := pset f k x) in *.
       assert (Hfk : f k = None).
-      { destruct (f k) as [y|] eqn:E; [|reflexivity]. destruct (v_dom _ _ _ _ _ _ _ _ _ H k y E) as [mn [_ [Hn _]]].
+      { destruct (f k) as [y|] eqn:E; [|reflexivity]. destruct (v_dom _ _ _ _ _ _ _ _ H k y E) as [mn [_ [Hn _]]].
         assert (nth_error (ms_nodes ms) k = None) by (apply nth_error_None; unfold k; lia). congruence. }
       assert (Hsub1 : psub f f1) by (apply psub_pset; exact Hfk).
       assert (Hplt : Forall plain t) by (inversion Hplain; assumption).
       assert (Hqne : forall q, sfx q t -> q <> d).
       { intros q Hq E. subst q. exact (not_sfx_longer b t Hq). }
-      destruct (IH ms1 ds1 f1 (d :: P) H1 Hplt) as [ms2 [ds2 [f2 [kp [pid [G1 [G2 [H2 [Hpt [Hfkp [Hsub2 [Hmono2 Hkpdir]]]]]]]]]]]].
+      destruct (IH ms1 ds1 f1 (d :: P) H1 Hplt) as [ms2 [ds2 [f2 [kp [pid [G1 [G2 [H2 [Hpt [Hfkp [Hsub2 Hmono2]]]]]]]]]]].
       { intros q k0 Hq Hp Hf. cbn [ms1 ms_m] in Hp. rewrite pfind_cons in Hp.
         rewrite (path_eqb_neq q d (Hqne q Hq)) in Hp.
         destruct (f k0) as [y|] eqn:Ey.
         - rewrite (Hsub1 k0 y Ey) in Hf. discriminate.
         - exact (Hanc q k0 (sfx_tl q b t Hq) Hp Ey). }
       { intros q Hq [E|Hin]; [exact (Hqne q Hq (eq_sym E))|exact (HnP q (sfx_tl q b t Hq) Hin)]. }
-      { intros q k0 Hq Hp. cbn [ms1 ms_m] in Hp. rewrite pfind_cons in Hp. rewrite (path_eqb_neq q d (Hqne q Hq)) in Hp.
-        pose proof (Hdir q k0 (sfx_tl q b t Hq) Hp) as Hty. unfold ntype in *. cbn [ms1 ms_nodes].
-        destruct (v_mdom _ _ _ _ _ _ _ _ _ H q k0 Hp) as [mn0 [Hn0 _]].
-        rewrite nth_error_app1 by (apply nth_error_Some; congruence). exact Hty. }
       assert (Hdk2 : pfind d (ms_m ms2) = Some k).
       { apply Hmono2. cbn [ms1 ms_m]. rewrite pfind_cons, path_eqb_refl. reflexivity. }
       assert (Hfk2 : f2 k = Some x) by (apply Hsub2; unfold f1; apply pset_same).
       assert (HtP : ~ In t (d :: P)).
       { intros [E|Hin]; [exact (Hqne t (sfx_refl t) (eq_sym E))|exact (HnP t (sfx_tl t b t (sfx_refl t)) Hin)]. }
-      assert (Hnoh : forall k', h k' <> Some k).
-      { intros k' E. destruct (v_h _ _ _ _ _ _ _ _ _ H k' k E) as [Hlt1 [Hlt2 _]].
-        pose proof (v_lenm _ _ _ _ _ _ _ _ _ H). unfold k in Hlt1. lia. }
-      pose proof (Inv_link _ _ _ _ _ _ d P np cp b t k x kp pid H2 eq_refl Hdk2 Hfk2 Hpt Hfkp HtP Hkpdir Hnoh) as H3.
+      assert (Hnpk : np <> Some k).
+      { intro E. destruct (v_np _ _ _ _ _ _ _ _ H k E) as [p0 [_ Hp0]].
+        destruct (v_mdom _ _ _ _ _ _ _ _ H p0 k Hp0) as [mn [Hn _]].
+        assert (nth_error (ms_nodes ms) k = None) by (apply nth_error_None; unfold k; lia). congruence. }
+      pose proof (Inv_link _ _ _ _ _ d P np cp b t k x kp pid H2 eq_refl Hdk2 Hfk2 Hpt Hfkp HtP Hnpk) as H3.
       assert (Htype : etype_eqb (m_type ms2 k) TDir = true).
-      { destruct (v_mdom _ _ _ _ _ _ _ _ _ H2 d k Hdk2) as [mn [Hn _]].
-        assert (Hkn : (length toc <= k)%nat) by (unfold k; exact (v_lenm _ _ _ _ _ _ _ _ _ H)).
-        destruct (v_impl _ _ _ _ _ _ _ _ _ H2 k mn Hkn Hn) as [[d' Hd'] _].
+      { destruct (v_mdom _ _ _ _ _ _ _ _ H2 d k Hdk2) as [mn [Hn _]].
+        assert (Hkn : (length toc <= k)%nat) by (unfold k; exact (v_lenm _ _ _ _ _ _ _ _ H)).
+        destruct (v_impl _ _ _ _ _ _ _ _ H2 k mn Hkn Hn) as [[d' Hd'] _].
         unfold m_type. rewrite Hn, Hd'. reflexivity. }
       rewrite Htype in H3.
       exists (m_add_child ms2 kp b k), (d_set_child ds2 pid b x true), f2, k, x.
@@ -807,13 +623,8 @@ Proof.
         rewrite G2. reflexivity. }
       split; [exact H3|].
       rewrite m_add_child_m. split; [exact Hdk2|]. split; [exact Hfk2|]. split; [exact (psub_trans _ _ _ Hsub1 Hsub2)|].
-      split.
-      { intros q k0 Hq. apply Hmono2. cbn [ms1 ms_m]. rewrite pfind_cons. rewrite path_eqb_neq; [exact Hq|].
-        intro; subst q. congruence. }
-      destruct (v_mdom _ _ _ _ _ _ _ _ _ H3 d k) as [mn3 [Hn3 _]]; [rewrite m_add_child_m; exact Hdk2|].
-      assert (Hkn : (length toc <= k)%nat) by (unfold k; exact (v_lenm _ _ _ _ _ _ _ _ _ H)).
-      destruct (v_impl _ _ _ _ _ _ _ _ _ H3 k mn3 Hkn Hn3) as [[d' Hd'] _].
-      rewrite (ntype_nth _ k mn3 Hn3), Hd'. reflexivity.
+      intros q k0 Hq. apply Hmono2. cbn [ms1 ms_m]. rewrite pfind_cons. rewrite path_eqb_neq; [exact Hq|].
+      intro; subst q. congruence.
 Qed.
 
 (* ---------- one entry (not a hardlink, not a chunk, not yet present in the db tree) ---------- *)
@@ -828,48 +639,43 @@ Proof.
 Qed.
 
 (* the db store creates the node of entry i *)
-Lemma Inv_begin : forall toc i ms ds f h e,
-  Inv toc i ms ds f h [] None None -> nth_error toc i = Some e -> cname e <> [] -> e_type e <> THardlink ->
-  Inv toc (S i) ms (fst (d_new ds (attr_of e (init_nl e + 1)))) (pset f i (length (ds_nodes ds))) h
+Lemma Inv_begin : forall toc i ms ds f e,
+  Inv toc i ms ds f [] None None -> nth_error toc i = Some e -> cname e <> [] ->
+  Inv toc (S i) ms (fst (d_new ds (attr_of e (init_nl e + 1)))) (pset f i (length (ds_nodes ds)))
       [cname e] (Some i) (Some (length (ds_nodes ds))).
 Proof.
-  intros toc i ms ds f h e H Hi Hne Hnhl.
+  intros toc i ms ds f e H Hi Hne.
   set (x := length (ds_nodes ds)). set (f' := pset f i x).
   assert (Li : (i < length toc)%nat) by (apply nth_error_Some; congruence).
   destruct (nth_error (ms_nodes ms) i) as [mni|] eqn:Hmni;
-    [|apply nth_error_None in Hmni; pose proof (v_lenm _ _ _ _ _ _ _ _ _ H); lia].
+    [|apply nth_error_None in Hmni; pose proof (v_lenm _ _ _ _ _ _ _ _ H); lia].
   assert (Hei : mn_e mni = e).
-  { pose proof (v_ent _ _ _ _ _ _ _ _ _ H i mni Li Hmni) as E. rewrite Hi in E. inversion E. reflexivity. }
-  destruct (v_todo _ _ _ _ _ _ _ _ _ H i mni (conj (le_n i) Li) Hmni) as [Hfi [Hnl Hch]].
+  { pose proof (v_ent _ _ _ _ _ _ _ _ H i mni Li Hmni) as E. rewrite Hi in E. inversion E. reflexivity. }
+  destruct (v_todo _ _ _ _ _ _ _ _ H i mni (conj (le_n i) Li) Hmni) as [Hfi [Hnl Hch]].
   assert (Hsub : psub f f') by (apply psub_pset; exact Hfi).
-  assert (Hpi : pfind (cname e) (ms_m ms) = Some i) by exact (v_expl _ _ _ _ _ _ _ _ _ H i e Hi).
+  assert (Hpi : pfind (cname e) (ms_m ms) = Some i) by exact (v_expl _ _ _ _ _ _ _ _ H i e Hi).
   assert (Hflt : forall k0 y, f k0 = Some y -> (y < x)%nat).
-  { intros k0 y E. destruct (v_dom _ _ _ _ _ _ _ _ _ H k0 y E) as [mn [dn [_ [Hd _]]]]. apply nth_error_Some. congruence. }
+  { intros k0 y E. destruct (v_dom _ _ _ _ _ _ _ _ H k0 y E) as [mn [dn [_ [Hd _]]]]. apply nth_error_Some. congruence. }
   assert (Hf'old : forall k0, k0 <> i -> f' k0 = f k0) by (intros; apply pset_other; assumption).
   assert (Hdfind : forall q, d_find (fst (d_new ds (attr_of e (init_nl e + 1)))) q = d_find ds q).
-  { intro q. unfold d_new. simpl fst. apply d_find_app. exact (Inv_range _ _ _ _ _ _ _ _ _ H). }
+  { intro q. unfold d_new. simpl fst. apply d_find_app. exact (Inv_range _ _ _ _ _ _ _ _ H). }
   assert (Dn : forall z, (z < x)%nat -> nth_error (ds_nodes (fst (d_new ds (attr_of e (init_nl e + 1))))) z = nth_error (ds_nodes ds) z)
     by (intros z Hz; unfold d_new; simpl; apply nth_error_app1; exact Hz).
   assert (Dx : nth_error (ds_nodes (fst (d_new ds (attr_of e (init_nl e + 1))))) x = Some (DN (write_attr (attr_of e (init_nl e + 1))) [] []))
     by (unfold d_new; simpl; rewrite nth_error_app2 by (unfold x; lia); unfold x; rewrite Nat.sub_diag; reflexivity).
   assert (Hnamei : forall q k0, pfind q (ms_m ms) = Some k0 -> k0 <> i -> q <> cname e).
   { intros q k0 Hq Hk0 E. subst q. congruence. }
-  assert (Hhi : h i = None) by exact (v_htodo _ _ _ _ _ _ _ _ _ H i (le_n i)).
-  assert (Hhf : forall k1 o, h k1 = Some o -> f o <> None).
-  { intros k1 o E. destruct (v_h _ _ _ _ _ _ _ _ _ H k1 o E) as [_ [_ [_ [_ [[x1 [mo [Hfo _]]] _]]]]]. congruence. }
   constructor.
-  - exact (v_lenm _ _ _ _ _ _ _ _ _ H).
-  - exact (v_mlen _ _ _ _ _ _ _ _ _ H).
-  - exact (v_expl _ _ _ _ _ _ _ _ _ H).
-  - exact (v_mdom _ _ _ _ _ _ _ _ _ H).
-  - exact (v_ent _ _ _ _ _ _ _ _ _ H).
-  - intros k0 mn Hk0 Hn. destruct (v_impl _ _ _ _ _ _ _ _ _ H k0 mn Hk0 Hn) as [Hd Hf0]. split; [exact Hd|].
+  - exact (v_lenm _ _ _ _ _ _ _ _ H).
+  - exact (v_expl _ _ _ _ _ _ _ _ H).
+  - exact (v_mdom _ _ _ _ _ _ _ _ H).
+  - exact (v_ent _ _ _ _ _ _ _ _ H).
+  - intros k0 mn Hk0 Hn. destruct (v_impl _ _ _ _ _ _ _ _ H k0 mn Hk0 Hn) as [Hd Hf0]. split; [exact Hd|].
     rewrite Hf'old by lia. exact Hf0.
-  - intros j mn Hj Hn. rewrite Hf'old by lia. apply (v_todo _ _ _ _ _ _ _ _ _ H j mn); [lia|exact Hn].
-  - intros j Hj. apply (v_htodo _ _ _ _ _ _ _ _ _ H). lia.
+  - intros j mn Hj Hn. rewrite Hf'old by lia. apply (v_todo _ _ _ _ _ _ _ _ H j mn); [lia|exact Hn].
   - intros j Hj Hjn. destruct (Nat.eq_dec j i) as [->|Hji].
-    + left. unfold f'. rewrite pset_same. discriminate.
-    + rewrite Hf'old by exact Hji. apply (v_done _ _ _ _ _ _ _ _ _ H); lia.
+    + unfold f'. rewrite pset_same. discriminate.
+    + rewrite Hf'old by exact Hji. apply (v_done _ _ _ _ _ _ _ _ H); lia.
   - intros k0 x0 Hf0. destruct (Nat.eq_dec k0 i) as [->|Hne0].
     + unfold f' in Hf0. rewrite pset_same in Hf0. inversion Hf0; subst x0.
       exists mni. eexists. split; [exact Hmni|]. split; [exact Dx|].
@@ -877,34 +683,30 @@ Proof.
       split; [reflexivity|]. split; [unfold init_nl; destruct (etype_eqb (e_type e) TDir); lia|]. split; [constructor|].
       split; [intro E; exfalso; apply E; reflexivity|intros _; reflexivity].
     + rewrite Hf'old in Hf0 by exact Hne0. pose proof (Hflt k0 x0 Hf0) as Hx0.
-      destruct (v_dom _ _ _ _ _ _ _ _ _ H k0 x0 Hf0) as [mn [dn [Hn [Hd Hr]]]].
+      destruct (v_dom _ _ _ _ _ _ _ _ H k0 x0 Hf0) as [mn [dn [Hn [Hd Hr]]]].
       exists mn, dn. split; [exact Hn|]. split; [rewrite Dn by exact Hx0; exact Hd|].
       apply (nrel_retag f f' None None (Some i) (Some x)); [exact Hsub| | |exact Hr].
       * simpl. replace (Nat.eqb i k0) with false by (symmetry; apply Nat.eqb_neq; congruence). reflexivity.
       * split; intro E; [inversion E; lia|discriminate].
-  - intros k0 x0 Hf0. destruct (Nat.eq_dec k0 i) as [->|Hne0].
-    + rewrite (ntype_nth ms i mni Hmni), Hei. exact Hnhl.
-    + rewrite Hf'old in Hf0 by exact Hne0. exact (v_ftype _ _ _ _ _ _ _ _ _ H k0 x0 Hf0).
   - intros k0 k1 y H0 H1. destruct (Nat.eq_dec k0 i) as [->|Hne0]; destruct (Nat.eq_dec k1 i) as [->|Hne1]; try reflexivity.
     + unfold f' in H0. rewrite pset_same in H0. inversion H0; subst y. rewrite Hf'old in H1 by exact Hne1.
       pose proof (Hflt k1 x H1). lia.
     + unfold f' in H1. rewrite pset_same in H1. inversion H1; subst y. rewrite Hf'old in H0 by exact Hne0.
       pose proof (Hflt k0 x H0). lia.
-    + rewrite Hf'old in H0, H1 by assumption. exact (v_inj _ _ _ _ _ _ _ _ _ H k0 k1 y H0 H1).
-  - intros q y Hq Hqne. rewrite Hdfind in Hq. destruct (v_L1 _ _ _ _ _ _ _ _ _ H q y Hq Hqne) as [k0 [H1 [H2 _]]].
-    exists k0. split; [exact H1|]. split; [apply fx_pset; assumption|].
-    intros [E|[]]. apply (Hnamei q k0 H1); [|symmetry; exact E].
-    intro; subst k0. unfold fx in H2. rewrite Hfi, Hhi in H2. discriminate.
+    + rewrite Hf'old in H0, H1 by assumption. exact (v_inj _ _ _ _ _ _ _ _ H k0 k1 y H0 H1).
+  - intros q y Hq Hqne. rewrite Hdfind in Hq. destruct (v_L1 _ _ _ _ _ _ _ _ H q y Hq Hqne) as [k0 [H1 [H2 _]]].
+    exists k0. split; [exact H1|]. split; [apply Hsub; exact H2|].
+    intros [E|[]]. apply (Hnamei q k0 H1); [intro; subst k0; congruence|symmetry; exact E].
   - intros q k0 y Hq Hf0 Hnin. rewrite Hdfind. destruct (Nat.eq_dec k0 i) as [->|Hne0].
-    + exfalso. apply Hnin. left. exact (Inv_pfun_name _ _ _ _ _ _ _ _ _ H _ _ _ Hpi Hq).
-    + apply (fx_pset_inv f h i x k0 y Hhf Hfi Hne0) in Hf0. apply (v_L2 _ _ _ _ _ _ _ _ _ H q k0 y Hq Hf0). intros [].
+    + exfalso. apply Hnin. left. exact (Inv_pfun_name _ _ _ _ _ _ _ _ H _ _ _ Hpi Hq).
+    + rewrite Hf'old in Hf0 by exact Hne0. apply (v_L2 _ _ _ _ _ _ _ _ H q k0 y Hq Hf0). intros [].
   - unfold d_new. cbn [fst d_set_nodes ds_nodes]. rewrite app_length. simpl length. fold x.
-    destruct (v_root _ _ _ _ _ _ _ _ _ H) as [[r [Hr [Hfr [Hty Hl]]]]|[H1 [H2 [H3 H4]]]].
-    + left. exists r. split; [exact Hr|]. split; [apply Hsub; exact Hfr|]. split; [exact Hty|]. fold x in Hl. lia.
+    destruct (v_root _ _ _ _ _ _ _ _ H) as [[r [Hr [Hfr Hl]]]|[H1 [H2 [H3 H4]]]].
+    + left. exists r. split; [exact Hr|]. split; [apply Hsub; exact Hfr|]. fold x in Hl. lia.
     + right. split.
       { destruct H1 as [H1|[r0 [Hr0 Hfr0]]]; [left; exact H1|right]. exists r0. split; [exact Hr0|].
         destruct (Nat.eq_dec r0 i) as [->|Hr0i].
-        - exfalso. assert (cname e = []) by exact (Inv_pfun_name _ _ _ _ _ _ _ _ _ H _ _ _ Hpi Hr0). contradiction.
+        - exfalso. assert (cname e = []) by exact (Inv_pfun_name _ _ _ _ _ _ _ _ H _ _ _ Hpi Hr0). contradiction.
         - rewrite Hf'old by exact Hr0i. exact Hfr0. }
       assert (0 < x)%nat by (apply nth_error_Some; unfold x; congruence).
       split; [rewrite nth_error_app1 by (fold x; lia); exact H2|]. split; [|fold x in H4; lia].
@@ -914,25 +716,20 @@ Proof.
   - intros q [E|[]]. subst q. split; [exact Hne|]. exists i, x, mni.
     split; [exact Hpi|]. split; [unfold f'; apply pset_same|]. split; [exact Hmni|exact Hch].
   - constructor; [intros []|constructor].
-  - intros j Hj. inversion Hj; subst j. split; [apply nth_error_Some; congruence|]. unfold f'. rewrite pset_same. discriminate.
+  - intros j Hj. inversion Hj; subst j. exists (cname e). split; [left; reflexivity|exact Hpi].
   - intros y Hy. inversion Hy; subst y. unfold d_new. cbn [fst d_set_nodes ds_nodes]. rewrite app_length. simpl. fold x. lia.
-  - intros k0 o Hk0.
-    refine (v_h_transport toc i ms ds f h [] None None ms H _ _ f' Hsub _ k0 o Hk0).
-    + intros z mn Hz. exists mn. auto.
-    + auto.
-    + intros k1 Hk1. destruct (h k1) as [o1|] eqn:Eo; [|contradiction].
-      destruct (v_h _ _ _ _ _ _ _ _ _ H k1 o1 Eo) as [_ [_ [Hfn _]]].
-      rewrite Hf'old; [exact Hfn|]. intro; subst k1. congruence.
-  - exact (v_leaf _ _ _ _ _ _ _ _ _ H).
 Qed.
 
 (* the memory store counts the entry's own name (ent.NumLink++) after getOrCreateDir *)
-Lemma Inv_npdone : forall toc i ms ds f h P cp j,
-  Inv toc i ms ds f h P (Some j) cp -> Inv toc i (m_nlink_inc ms j) ds f h P None cp.
+Lemma Inv_npdone : forall toc i ms ds f P cp j,
+  Inv toc i ms ds f P (Some j) cp -> Inv toc i (m_nlink_inc ms j) ds f P None cp.
 Proof.
-  intros toc i ms ds f h P cp j H.
-  destruct (v_np _ _ _ _ _ _ _ _ _ H j eq_refl) as [Lj Hfjne].
-  destruct (nth_error (ms_nodes ms) j) as [mnj|] eqn:Hmnj; [|apply nth_error_None in Hmnj; lia].
+  intros toc i ms ds f P cp j H.
+  destruct (v_np _ _ _ _ _ _ _ _ H j eq_refl) as [p0 [Hin0 Hp0]].
+  destruct (v_mdom _ _ _ _ _ _ _ _ H p0 j Hp0) as [mnj [Hmnj Hcj]].
+  destruct (v_pend _ _ _ _ _ _ _ _ H p0 Hin0) as [_ [k9 [x9 [mn9 [Hk9 [Hfj _]]]]]].
+  rewrite Hp0 in Hk9. inversion Hk9; subst k9.
+  assert (Lj : (j < length (ms_nodes ms))%nat) by (apply nth_error_Some; congruence).
   assert (Hs : m_nlink_inc ms j = MS (upd (ms_nodes ms) j (MN (mn_e mnj) (mn_nlink mnj + 1) (mn_ch mnj))) (ms_m ms))
     by (unfold m_nlink_inc; rewrite Hmnj; reflexivity).
   rewrite Hs.
@@ -946,21 +743,19 @@ Proof.
     - rewrite Mj in Hz. inversion Hz; subst mn. exists mnj. simpl. repeat split; auto. intro; contradiction.
     - rewrite Mo in Hz by exact Hne. exists mn. auto. }
   constructor; cbn [ms_nodes ms_m].
-  - rewrite upd_length. exact (v_lenm _ _ _ _ _ _ _ _ _ H).
-  - exact (v_mlen _ _ _ _ _ _ _ _ _ H).
-  - exact (v_expl _ _ _ _ _ _ _ _ _ H).
-  - intros q k0 Hq. destruct (v_mdom _ _ _ _ _ _ _ _ _ H q k0 Hq) as [mn [Hn Hc]].
+  - rewrite upd_length. exact (v_lenm _ _ _ _ _ _ _ _ H).
+  - exact (v_expl _ _ _ _ _ _ _ _ H).
+  - intros q k0 Hq. destruct (v_mdom _ _ _ _ _ _ _ _ H q k0 Hq) as [mn [Hn Hc]].
     destruct (Nat.eq_dec k0 j) as [->|Hne].
     + eexists. split; [exact Mj|]. simpl. rewrite Hmnj in Hn. inversion Hn; subst mn. exact Hc.
     + exists mn. split; [rewrite Mo by exact Hne; exact Hn|exact Hc].
-  - intros j0 mn Hj0 Hn. destruct (Mnth j0 mn Hn) as [mn0 [Hn0 [He _]]]. rewrite He. exact (v_ent _ _ _ _ _ _ _ _ _ H j0 mn0 Hj0 Hn0).
-  - intros k0 mn Hk0 Hn. destruct (Mnth k0 mn Hn) as [mn0 [Hn0 [He _]]]. rewrite He. exact (v_impl _ _ _ _ _ _ _ _ _ H k0 mn0 Hk0 Hn0).
+  - intros j0 mn Hj0 Hn. destruct (Mnth j0 mn Hn) as [mn0 [Hn0 [He _]]]. rewrite He. exact (v_ent _ _ _ _ _ _ _ _ H j0 mn0 Hj0 Hn0).
+  - intros k0 mn Hk0 Hn. destruct (Mnth k0 mn Hn) as [mn0 [Hn0 [He _]]]. rewrite He. exact (v_impl _ _ _ _ _ _ _ _ H k0 mn0 Hk0 Hn0).
   - intros j0 mn Hj0 Hn. destruct (Mnth j0 mn Hn) as [mn0 [Hn0 [He [Hc Hsame]]]].
-    destruct (v_todo _ _ _ _ _ _ _ _ _ H j0 mn0 Hj0 Hn0) as [Hf0 Hrest].
+    destruct (v_todo _ _ _ _ _ _ _ _ H j0 mn0 Hj0 Hn0) as [Hf0 Hrest].
     assert (j0 <> j) by (intro; subst j0; congruence). rewrite (Hsame H0). split; assumption.
-  - exact (v_htodo _ _ _ _ _ _ _ _ _ H).
-  - exact (v_done _ _ _ _ _ _ _ _ _ H).
-  - intros k0 y Hf0. destruct (v_dom _ _ _ _ _ _ _ _ _ H k0 y Hf0) as [mn [dn [Hn [Hd Hr]]]].
+  - exact (v_done _ _ _ _ _ _ _ _ H).
+  - intros k0 y Hf0. destruct (v_dom _ _ _ _ _ _ _ _ H k0 y Hf0) as [mn [dn [Hn [Hd Hr]]]].
     destruct (Nat.eq_dec k0 j) as [->|Hne].
     + rewrite Hmnj in Hn. inversion Hn; subst mn. eexists. exists dn. split; [exact Mj|]. split; [exact Hd|].
       destruct Hr as [H1 [H2 [H3 H4]]]. unfold nrel, nadj in *. rewrite Nat.eqb_refl in H1, H2. cbn [mn_e mn_nlink mn_ch].
@@ -968,35 +763,18 @@ Proof.
     + exists mn, dn. split; [rewrite Mo by exact Hne; exact Hn|]. split; [exact Hd|].
       apply (nrel_retag f f (Some j) cp None cp); [apply psub_refl| |tauto|exact Hr].
       simpl. replace (Nat.eqb j k0) with false by (symmetry; apply Nat.eqb_neq; congruence). reflexivity.
-  - intros k0 y Hf0. pose proof (v_ftype _ _ _ _ _ _ _ _ _ H k0 y Hf0) as Ht. unfold ntype in *. cbn [ms_nodes].
-    destruct (Nat.eq_dec k0 j) as [->|Hne].
-    + rewrite Mj. rewrite Hmnj in Ht. exact Ht.
-    + rewrite Mo by exact Hne. exact Ht.
-  - exact (v_inj _ _ _ _ _ _ _ _ _ H).
-  - exact (v_L1 _ _ _ _ _ _ _ _ _ H).
-  - exact (v_L2 _ _ _ _ _ _ _ _ _ H).
-  - rewrite upd_length. destruct (v_root _ _ _ _ _ _ _ _ _ H) as [[r [Hr [Hfr [Hty Hl]]]]|Hright]; [left|right; exact Hright].
-    exists r. split; [exact Hr|]. split; [exact Hfr|]. split; [|exact Hl].
-    unfold ntype in *. cbn [ms_nodes]. destruct (Nat.eq_dec r j) as [->|Hne].
-    + rewrite Mj. rewrite Hmnj in Hty. exact Hty.
-    + rewrite Mo by exact Hne. exact Hty.
-  - intros q Hin. destruct (v_pend _ _ _ _ _ _ _ _ _ H q Hin) as [Hqne [k0 [x1 [mn1 [H1 [H2 [H3 H4]]]]]]].
+  - exact (v_inj _ _ _ _ _ _ _ _ H).
+  - exact (v_L1 _ _ _ _ _ _ _ _ H).
+  - exact (v_L2 _ _ _ _ _ _ _ _ H).
+  - rewrite upd_length. exact (v_root _ _ _ _ _ _ _ _ H).
+  - intros q Hin. destruct (v_pend _ _ _ _ _ _ _ _ H q Hin) as [Hqne [k0 [x1 [mn1 [H1 [H2 [H3 H4]]]]]]].
     split; [exact Hqne|]. destruct (Nat.eq_dec k0 j) as [->|Hne].
     + exists j, x1. eexists. split; [exact H1|]. split; [exact H2|]. split; [exact Mj|]. simpl.
       rewrite Hmnj in H3. inversion H3; subst mn1. exact H4.
     + exists k0, x1, mn1. split; [exact H1|]. split; [exact H2|]. split; [rewrite Mo by exact Hne; exact H3|exact H4].
-  - exact (v_nodupP _ _ _ _ _ _ _ _ _ H).
+  - exact (v_nodupP _ _ _ _ _ _ _ _ H).
   - intros j0 Hj0. discriminate.
-  - exact (v_cp _ _ _ _ _ _ _ _ _ H).
-  - intros k0 o Hk0.
-    refine (v_h_transport toc i ms ds f h P (Some j) cp (MS (upd (ms_nodes ms) j (MN (mn_e mnj) (mn_nlink mnj + 1) (mn_ch mnj))) (ms_m ms)) H _ _ f (psub_refl f) _ k0 o Hk0).
-    + intros z mn Hz. destruct (Nat.eq_dec z j) as [->|Hne].
-      * eexists. split; [exact Mj|]. rewrite Hmnj in Hz. inversion Hz; subst mn. auto.
-      * exists mn. split; [cbn [ms_nodes]; rewrite Mo by exact Hne; exact Hz|]. auto.
-    + auto.
-    + intros k1 Hk1. destruct (h k1) as [o1|] eqn:Eo; [|contradiction].
-      destruct (v_h _ _ _ _ _ _ _ _ _ H k1 o1 Eo) as [_ [_ [Hfn _]]]. exact Hfn.
-  - intros z mn Hz Hnd. destruct (Mnth z mn Hz) as [mn0 [Hn0 [He [Hc _]]]]. rewrite Hc. apply (v_leaf _ _ _ _ _ _ _ _ _ H z mn0 Hn0). rewrite <- He. exact Hnd.
+  - exact (v_cp _ _ _ _ _ _ _ _ H).
 Qed.
 
 Lemma d_find_ext : forall s s', (forall y, d_children s y = d_children s' y) -> forall p, d_find s p = d_find s' p.
@@ -1006,13 +784,13 @@ Proof.
 Qed.
 
 (* the chunk of the entry is appended to its node at the end of the step *)
-Lemma Inv_finish : forall toc i ms ds f h k x mn e cs,
-  Inv toc i ms ds f h [] None (Some x) -> f k = Some x -> nth_error (ms_nodes ms) k = Some mn -> mn_e mn = e ->
+Lemma Inv_finish : forall toc i ms ds f k x mn e cs,
+  Inv toc i ms ds f [] None (Some x) -> f k = Some x -> nth_error (ms_nodes ms) k = Some mn -> mn_e mn = e ->
   etype_eqb (e_type e) TChunk = false -> cs = db_chsize e (e_size e) ->
-  Inv toc i ms (d_add_chunk (DS (ds_nodes ds) (Some x) (e_size e)) e cs) f h [] None None.
+  Inv toc i ms (d_add_chunk (DS (ds_nodes ds) (Some x) (e_size e)) e cs) f [] None None.
 Proof.
-  intros toc i ms ds f h k x mn e cs H Hfk Hmn He Hnc Hcs.
-  destruct (v_dom _ _ _ _ _ _ _ _ _ H k x Hfk) as [mn' [dnx [Hn' [Hdx Hrx]]]].
+  intros toc i ms ds f k x mn e cs H Hfk Hmn He Hnc Hcs.
+  destruct (v_dom _ _ _ _ _ _ _ _ H k x Hfk) as [mn' [dnx [Hn' [Hdx Hrx]]]].
   rewrite Hmn in Hn'. inversion Hn'; subst mn'.
   set (s3 := DS (ds_nodes ds) (Some x) (e_size e)).
   pose proof (d_add_chunk_nodes s3 e cs x dnx eq_refl Hdx Hnc) as Hnodes.
@@ -1035,18 +813,16 @@ Proof.
     - rewrite Do by exact Hne. reflexivity. }
   assert (Hfind : forall p, d_find ds' p = d_find ds p) by (intro p; symmetry; apply d_find_ext; exact Hch).
   constructor.
-  - exact (v_lenm _ _ _ _ _ _ _ _ _ H).
-  - exact (v_mlen _ _ _ _ _ _ _ _ _ H).
-  - exact (v_expl _ _ _ _ _ _ _ _ _ H).
-  - exact (v_mdom _ _ _ _ _ _ _ _ _ H).
-  - exact (v_ent _ _ _ _ _ _ _ _ _ H).
-  - exact (v_impl _ _ _ _ _ _ _ _ _ H).
-  - exact (v_todo _ _ _ _ _ _ _ _ _ H).
-  - exact (v_htodo _ _ _ _ _ _ _ _ _ H).
-  - exact (v_done _ _ _ _ _ _ _ _ _ H).
-  - intros k0 y Hf0. destruct (v_dom _ _ _ _ _ _ _ _ _ H k0 y Hf0) as [mn0 [dn0 [Hn0 [Hd0 Hr0]]]].
+  - exact (v_lenm _ _ _ _ _ _ _ _ H).
+  - exact (v_expl _ _ _ _ _ _ _ _ H).
+  - exact (v_mdom _ _ _ _ _ _ _ _ H).
+  - exact (v_ent _ _ _ _ _ _ _ _ H).
+  - exact (v_impl _ _ _ _ _ _ _ _ H).
+  - exact (v_todo _ _ _ _ _ _ _ _ H).
+  - exact (v_done _ _ _ _ _ _ _ _ H).
+  - intros k0 y Hf0. destruct (v_dom _ _ _ _ _ _ _ _ H k0 y Hf0) as [mn0 [dn0 [Hn0 [Hd0 Hr0]]]].
     destruct (Nat.eq_dec y x) as [->|Hne].
-    + assert (k0 = k) by exact (v_inj _ _ _ _ _ _ _ _ _ H k0 k x Hf0 Hfk). subst k0.
+    + assert (k0 = k) by exact (v_inj _ _ _ _ _ _ _ _ H k0 k x Hf0 Hfk). subst k0.
       rewrite Hmn in Hn0. inversion Hn0; subst mn0. rewrite Hdx in Hd0. inversion Hd0; subst dn0.
       exists mn, dn'. split; [exact Hmn|]. split; [exact Dx|].
       destruct Hr0 as [H1 [H2 [H3 _]]]. unfold nrel. rewrite Db, Dc.
@@ -1054,19 +830,16 @@ Proof.
     + exists mn0, dn0. split; [exact Hn0|]. split; [rewrite Do by exact Hne; exact Hd0|].
       apply (nrel_retag f f None (Some x) None None); [apply psub_refl|reflexivity| |exact Hr0].
       split; intro E; [discriminate|inversion E; congruence].
-  - exact (v_ftype _ _ _ _ _ _ _ _ _ H).
-  - exact (v_inj _ _ _ _ _ _ _ _ _ H).
-  - intros q y Hq Hqne. rewrite Hfind in Hq. exact (v_L1 _ _ _ _ _ _ _ _ _ H q y Hq Hqne).
-  - intros q k0 y Hq Hf0 Hnin. rewrite Hfind. exact (v_L2 _ _ _ _ _ _ _ _ _ H q k0 y Hq Hf0 Hnin).
-  - rewrite Dl. destruct (v_root _ _ _ _ _ _ _ _ _ H) as [Hl|[H1 [H2 [H3 H4]]]]; [left; exact Hl|right].
+  - exact (v_inj _ _ _ _ _ _ _ _ H).
+  - intros q y Hq Hqne. rewrite Hfind in Hq. exact (v_L1 _ _ _ _ _ _ _ _ H q y Hq Hqne).
+  - intros q k0 y Hq Hf0 Hnin. rewrite Hfind. exact (v_L2 _ _ _ _ _ _ _ _ H q k0 y Hq Hf0 Hnin).
+  - rewrite Dl. destruct (v_root _ _ _ _ _ _ _ _ H) as [Hl|[H1 [H2 [H3 H4]]]]; [left; exact Hl|right].
     split; [exact H1|]. split; [|split; [exact H3|exact H4]].
     rewrite Do; [exact H2|]. intro E. subst x. exact (H3 k Hfk).
   - intros q [].
   - constructor.
   - intros j Hj. discriminate.
   - intros y Hy. discriminate.
-  - exact (v_h _ _ _ _ _ _ _ _ _ H).
-  - exact (v_leaf _ _ _ _ _ _ _ _ _ H).
 Qed.
 
 (* ---------- the class: implicit parent directories allowed ---------- *)
@@ -1077,37 +850,12 @@ Proof. intros s j. unfold m_nlink_inc. destruct (nth_error (ms_nodes s) j); refl
 Definition ord_toc (toc : list entry) : Prop :=
   forall j k ej ek, nth_error toc j = Some ej -> nth_error toc k = Some ek -> psfx (cname ek) (cname ej) -> (k < j)%nat.
 
-(* whatever has entries below it is a directory *)
-Definition pardir_toc (toc : list entry) : Prop :=
-  forall j k ej ek, nth_error toc j = Some ej -> nth_error toc k = Some ek -> psfx (cname ek) (cname ej) -> e_type ek = TDir.
-
-Lemma ntype_nlink_inc : forall s j z, ntype (m_nlink_inc s j) z = ntype s z.
-Proof.
-  intros s j z. unfold ntype, m_nlink_inc. destruct (nth_error (ms_nodes s) j) as [mn|] eqn:E; [|reflexivity].
-  cbn [ms_nodes]. destruct (Nat.eq_dec j z) as [->|Hne].
-  - rewrite nth_upd_same by (apply nth_error_Some; congruence). rewrite E. reflexivity.
-  - rewrite nth_upd_other by exact Hne. reflexivity.
-Qed.
-
-(* explicit or implicit, every ancestor the memory store knows of the entry being processed is a directory *)
-Lemma anc_dir : forall toc i ms ds f h P np cp e base par, Inv toc i ms ds f h P np cp -> pardir_toc toc ->
-  nth_error toc i = Some e -> cname e = base :: par ->
-  forall q k0, sfx q par -> pfind q (ms_m ms) = Some k0 -> ntype ms k0 = TDir.
-Proof.
-  intros toc i ms ds f h P np cp e base par H Hpd Hi Hname q k0 Hq Hp.
-  destruct (v_mdom _ _ _ _ _ _ _ _ _ H q k0 Hp) as [mn [Hn Hc]]. rewrite (ntype_nth ms k0 mn Hn).
-  destruct (Nat.lt_ge_cases k0 (length toc)) as [Hl|Hg].
-  - pose proof (v_ent _ _ _ _ _ _ _ _ _ H k0 mn Hl Hn) as Hek.
-    apply (Hpd i k0 e (mn_e mn) Hi Hek). rewrite Hc, Hname. apply psfx_of_sfx_cons. exact Hq.
-  - destruct (v_impl _ _ _ _ _ _ _ _ _ H k0 mn Hg Hn) as [[d Hd] _]. rewrite Hd. reflexivity.
-Qed.
-
-Lemma Inv_step : forall toc i ms ds f h e, ord_toc toc -> pardir_toc toc -> entry_ok e ->
-  Inv toc i ms ds f h [] None None -> nth_error toc i = Some e ->
+Lemma Inv_step : forall toc i ms ds f e, ord_toc toc -> entry_ok e ->
+  Inv toc i ms ds f [] None None -> nth_error toc i = Some e ->
   exists ms' ds' f', pass2_step (Some ms) (i, e) = Some ms' /\ db_step (Some ds) e = Some ds' /\
-                     Inv toc (S i) ms' ds' f' h [] None None.
+                     Inv toc (S i) ms' ds' f' [] None None.
 Proof.
-  intros toc i ms ds f h e Hord Hpd He H Hi.
+  intros toc i ms ds f e Hord He H Hi.
   assert (Li : (i < length toc)%nat) by (apply nth_error_Some; congruence).
   destruct (cname e) as [|base par] eqn:Hname; [exfalso; exact (eo_name e He Hname)|].
   assert (Hnc : etype_eqb (e_type e) TChunk = false) by exact (okt_not_chunk e (eo_type e He)).
@@ -1115,61 +863,51 @@ Proof.
   (* the db store does not have this name yet *)
   assert (Hfresh : d_find ds (base :: par) = None).
   { destruct (d_find ds (base :: par)) as [y|] eqn:E; [|reflexivity]. exfalso.
-    destruct (v_L1 _ _ _ _ _ _ _ _ _ H _ y E ltac:(discriminate)) as [k0 [Hk0 [Hf0 _]]].
-    rewrite <- Hname in Hk0. rewrite (v_expl _ _ _ _ _ _ _ _ _ H i e Hi) in Hk0. inversion Hk0; subst k0.
+    destruct (v_L1 _ _ _ _ _ _ _ _ H _ y E ltac:(discriminate)) as [k0 [Hk0 [Hf0 _]]].
+    rewrite <- Hname in Hk0. rewrite (v_expl _ _ _ _ _ _ _ _ H i e Hi) in Hk0. inversion Hk0; subst k0.
     destruct (nth_error (ms_nodes ms) i) as [mni|] eqn:Hmni;
-      [|apply nth_error_None in Hmni; pose proof (v_lenm _ _ _ _ _ _ _ _ _ H); lia].
-    destruct (v_todo _ _ _ _ _ _ _ _ _ H i mni (conj (le_n i) Li) Hmni) as [Hfi _].
-    unfold fx in Hf0. rewrite Hfi, (v_htodo _ _ _ _ _ _ _ _ _ H i (le_n i)) in Hf0. discriminate. }
+      [|apply nth_error_None in Hmni; pose proof (v_lenm _ _ _ _ _ _ _ _ H); lia].
+    destruct (v_todo _ _ _ _ _ _ _ _ H i mni (conj (le_n i) Li) Hmni) as [Hfi _]. congruence. }
   set (x := length (ds_nodes ds)).
   assert (Hne : cname e <> []) by (rewrite Hname; discriminate).
-  assert (Hnhl : e_type e <> THardlink) by (intro E; rewrite E in Hnh; discriminate).
-  pose proof (Inv_begin toc i ms ds f h e H Hi Hne Hnhl) as H1. fold x in H1.
+  pose proof (Inv_begin toc i ms ds f e H Hi Hne) as H1. fold x in H1.
   set (ds1 := fst (d_new ds (attr_of e (init_nl e + 1)))) in *. set (f1 := pset f i x) in *.
   assert (Hplain : Forall plain par).
   { pose proof (cname_plain e) as Hp. rewrite Hname in Hp. inversion Hp; assumption. }
-  destruct (goc_sim toc (S i) h (Some i) (Some x) par ms ds1 f1 [cname e] H1 Hplain) as
-      [ms2 [ds2 [f2 [kp [pid [G1 [G2 [H2 [Hpp [Hfkp [Hsub2 [Hmono2 Hkpdir]]]]]]]]]]]].
+  destruct (goc_sim toc (S i) (Some i) (Some x) par ms ds1 f1 [cname e] H1 Hplain) as
+      [ms2 [ds2 [f2 [kp [pid [G1 [G2 [H2 [Hpp [Hfkp [Hsub2 Hmono2]]]]]]]]]]].
   { intros q k0 Hq Hp Hf0.
-    destruct (v_mdom _ _ _ _ _ _ _ _ _ H q k0 Hp) as [mn [Hn Hc]].
+    destruct (v_mdom _ _ _ _ _ _ _ _ H q k0 Hp) as [mn [Hn Hc]].
     destruct (Nat.lt_ge_cases k0 (length toc)) as [Hl|Hg].
-    - pose proof (v_ent _ _ _ _ _ _ _ _ _ H k0 mn Hl Hn) as Hek.
+    - pose proof (v_ent _ _ _ _ _ _ _ _ H k0 mn Hl Hn) as Hek.
       assert (Hk0i : (k0 < i)%nat).
       { apply (Hord i k0 e (mn_e mn) Hi Hek). rewrite Hc, Hname. apply psfx_of_sfx_cons. exact Hq. }
       assert (k0 <> i) by lia. unfold f1 in Hf0. rewrite pset_other in Hf0 by assumption.
-      destruct (v_done _ _ _ _ _ _ _ _ _ H k0 Hk0i Hl) as [Hd|Hd]; [exact (Hd Hf0)|].
-      destruct (h k0) as [o|] eqn:Eo; [|contradiction].
-      destruct (v_h _ _ _ _ _ _ _ _ _ H k0 o Eo) as [_ [_ [_ [Hty _]]]].
-      rewrite (anc_dir toc i ms ds f h [] None None e base par H Hpd Hi Hname q k0 Hq Hp) in Hty. discriminate.
-    - destruct (v_impl _ _ _ _ _ _ _ _ _ H k0 mn Hg Hn) as [_ Hfn].
+      exact (v_done _ _ _ _ _ _ _ _ H k0 Hk0i Hl Hf0).
+    - destruct (v_impl _ _ _ _ _ _ _ _ H k0 mn Hg Hn) as [_ Hfn].
       assert (k0 <> i) by lia. unfold f1 in Hf0. rewrite pset_other in Hf0 by assumption. exact (Hfn Hf0). }
   { intros q Hq [E|[]]. rewrite Hname in E. subst q. exact (not_sfx_longer base par Hq). }
-  { exact (anc_dir toc i ms ds f h [] None None e base par H Hpd Hi Hname). }
-  pose proof (Inv_npdone _ _ _ _ _ _ _ _ _ H2) as H3.
+  pose proof (Inv_npdone _ _ _ _ _ _ _ _ H2) as H3.
   assert (Hpi2 : pfind (base :: par) (ms_m ms2) = Some i).
-  { rewrite <- Hname. exact (v_expl _ _ _ _ _ _ _ _ _ H2 i e Hi). }
+  { rewrite <- Hname. exact (v_expl _ _ _ _ _ _ _ _ H2 i e Hi). }
   assert (Hfi2 : f2 i = Some x) by (apply Hsub2; unfold f1; apply pset_same).
   assert (HparP : ~ In par [base :: par]).
   { intros [E|[]]. apply (f_equal (@length Z)) in E. simpl in E. lia. }
   rewrite Hname in H3.
-  pose proof (Inv_link toc (S i) (m_nlink_inc ms2 i) ds2 f2 h (base :: par) [] None (Some x) base par i x kp pid H3 eq_refl) as H4.
-  rewrite m_nlink_inc_m in H4. rewrite ntype_nlink_inc in H4.
-  assert (Hnoh : forall k', h k' <> Some i).
-  { intros k' E. destruct (v_h _ _ _ _ _ _ _ _ _ H k' i E) as [Hlt _].
-    pose proof (v_htodo _ _ _ _ _ _ _ _ _ H k') as Hto. destruct (Nat.lt_ge_cases k' i) as [Hl|Hg]; [lia|]. rewrite (Hto Hg) in E. discriminate. }
-  specialize (H4 Hpi2 Hfi2 Hpp Hfkp HparP Hkpdir Hnoh).
+  pose proof (Inv_link toc (S i) (m_nlink_inc ms2 i) ds2 f2 (base :: par) [] None (Some x) base par i x kp pid H3 eq_refl) as H4.
+  rewrite m_nlink_inc_m in H4. specialize (H4 Hpi2 Hfi2 Hpp Hfkp HparP ltac:(discriminate)).
   (* the type the memory store sees for node i *)
-  destruct (v_dom _ _ _ _ _ _ _ _ _ H3 i x Hfi2) as [mni3 [dni3 [Hmni3 _]]].
+  destruct (v_dom _ _ _ _ _ _ _ _ H3 i x Hfi2) as [mni3 [dni3 [Hmni3 _]]].
   assert (Hei3 : mn_e mni3 = e).
-  { pose proof (v_ent _ _ _ _ _ _ _ _ _ H3 i mni3 Li Hmni3) as E. rewrite Hi in E. inversion E. reflexivity. }
+  { pose proof (v_ent _ _ _ _ _ _ _ _ H3 i mni3 Li Hmni3) as E. rewrite Hi in E. inversion E. reflexivity. }
   assert (Htype : m_type (m_nlink_inc ms2 i) i = e_type e) by (unfold m_type; rewrite Hmni3, Hei3; reflexivity).
   rewrite Htype in H4.
   set (ms4 := m_add_child (m_nlink_inc ms2 i) kp base i) in *.
   set (ds4 := d_set_child ds2 pid base x (etype_eqb (e_type e) TDir)) in *.
-  destruct (v_dom _ _ _ _ _ _ _ _ _ H4 i x Hfi2) as [mni4 [dni4 [Hmni4 _]]].
+  destruct (v_dom _ _ _ _ _ _ _ _ H4 i x Hfi2) as [mni4 [dni4 [Hmni4 _]]].
   assert (Hei4 : mn_e mni4 = e).
-  { pose proof (v_ent _ _ _ _ _ _ _ _ _ H4 i mni4 Li Hmni4) as E. rewrite Hi in E. inversion E. reflexivity. }
-  pose proof (Inv_finish toc (S i) ms4 ds4 f2 h i x mni4 e (db_chsize e (ds_lastsize ds)) H4 Hfi2 Hmni4 Hei4 Hnc
+  { pose proof (v_ent _ _ _ _ _ _ _ _ H4 i mni4 Li Hmni4) as E. rewrite Hi in E. inversion E. reflexivity. }
+  pose proof (Inv_finish toc (S i) ms4 ds4 f2 i x mni4 e (db_chsize e (ds_lastsize ds)) H4 Hfi2 Hmni4 Hei4 Hnc
                 (db_chsize_reg e _ _ Hnc)) as H5.
   exists ms4. eexists. exists f2. split; [|split; [|exact H5]].
   - unfold pass2_step. rewrite Hnc. unfold cname in Hname. rewrite Hname. rewrite G1. rewrite Hnh. reflexivity.
@@ -1181,409 +919,6 @@ Proof.
     rewrite (surjective_pairing (d_new ds (attr_of e (init_nl e + 1)))). fold ds1.
     replace (snd (d_new ds (attr_of e (init_nl e + 1)))) with x by reflexivity.
     rewrite G2. reflexivity.
-Qed.
-
-(* ---------- a hardlink entry whose target precedes it ---------- *)
-
-Lemma d_find_link2 : forall s s' pid base id par,
-  (forall y, d_children s' y = if Nat.eqb y pid then ins base id (d_children s pid) else d_children s y) ->
-  d_find s par = Some pid ->
-  (forall q, d_find s q = Some pid -> q = par) ->
-  find base (d_children s pid) = None ->
-  d_children s id = [] ->
-  id <> pid ->
-  forall p, d_find s' p = if path_eqb p (base :: par) then Some id else d_find s p.
-Proof.
-  intros s s' pid base id par Hch Hpar Hinj Hnone Hkids Hne.
-  induction p as [|b q IH]; [reflexivity|].
-  rewrite d_find_cons, IH. rewrite d_find_cons.
-  destruct (path_eqb q (base :: par)) eqn:Eq.
-  - apply path_eqb_eq in Eq. subst q.
-    rewrite Hch.
-    replace (Nat.eqb id pid) with false by (symmetry; apply Nat.eqb_neq; exact Hne).
-    rewrite Hkids. simpl find.
-    rewrite path_eqb_neq.
-    + rewrite d_find_cons, Hpar, Hnone. reflexivity.
-    + intro H. apply (f_equal (@length Z)) in H. simpl in H. lia.
-  - destruct (d_find s q) as [y|] eqn:Ey.
-    + rewrite Hch. destruct (Nat.eqb y pid) eqn:Ey2.
-      * apply Nat.eqb_eq in Ey2. subst y. assert (q = par) by exact (Hinj q Ey). subst q.
-        simpl path_eqb. destruct (b =? base) eqn:Eb.
-        -- apply Z.eqb_eq in Eb. subst b. rewrite path_eqb_refl. simpl. apply find_ins_same.
-        -- simpl. apply find_ins_other. apply Z.eqb_neq. exact Eb.
-      * rewrite path_eqb_neq; [reflexivity|].
-        intro H. inversion H; subst. rewrite Hpar in Ey. inversion Ey; subst. rewrite Nat.eqb_refl in Ey2. discriminate.
-    + rewrite path_eqb_neq; [reflexivity|].
-      intro H. inversion H; subst. rewrite Hpar in Ey. discriminate.
-Qed.
-
-(* the db store counts the new name on the source node before it looks for the parent *)
-Lemma Inv_bump : forall toc i ms ds f h o x,
-  Inv toc i ms ds f h [] None None -> f o = Some x ->
-  Inv toc i ms (d_upd_bucket ds x bump_nlink) f h [] (Some o) None.
-Proof.
-  intros toc i ms ds f h o x H Hfo.
-  destruct (v_dom _ _ _ _ _ _ _ _ _ H o x Hfo) as [mno [dnx [Hmno [Hdnx Hrelo]]]].
-  assert (Lx : (x < length (ds_nodes ds))%nat) by (apply nth_error_Some; congruence).
-  set (ds' := d_upd_bucket ds x bump_nlink).
-  assert (Hs : ds' = d_set_nodes ds (upd (ds_nodes ds) x (DN (bump_nlink (dn_b dnx)) (dn_ch dnx) (dn_chunks dnx))))
-    by (unfold ds', d_upd_bucket; rewrite Hdnx; reflexivity).
-  assert (Dx : nth_error (ds_nodes ds') x = Some (DN (bump_nlink (dn_b dnx)) (dn_ch dnx) (dn_chunks dnx)))
-    by (rewrite Hs, nth_set_nodes; apply nth_upd_same; exact Lx).
-  assert (Do : forall z, z <> x -> nth_error (ds_nodes ds') z = nth_error (ds_nodes ds) z)
-    by (intros z Hz; rewrite Hs, nth_set_nodes; apply nth_upd_other; congruence).
-  assert (Dl : length (ds_nodes ds') = length (ds_nodes ds)) by (rewrite Hs; unfold d_set_nodes; cbn [ds_nodes]; apply upd_length).
-  assert (Hch : forall y, d_children ds y = d_children ds' y).
-  { intro y. unfold d_children. destruct (Nat.eq_dec y x) as [->|Hne].
-    - rewrite Hdnx, Dx. reflexivity.
-    - rewrite Do by exact Hne. reflexivity. }
-  assert (Hfind : forall p, d_find ds' p = d_find ds p) by (intro p; symmetry; apply d_find_ext; exact Hch).
-  constructor.
-  - exact (v_lenm _ _ _ _ _ _ _ _ _ H).
-  - exact (v_mlen _ _ _ _ _ _ _ _ _ H).
-  - exact (v_expl _ _ _ _ _ _ _ _ _ H).
-  - exact (v_mdom _ _ _ _ _ _ _ _ _ H).
-  - exact (v_ent _ _ _ _ _ _ _ _ _ H).
-  - exact (v_impl _ _ _ _ _ _ _ _ _ H).
-  - exact (v_todo _ _ _ _ _ _ _ _ _ H).
-  - exact (v_htodo _ _ _ _ _ _ _ _ _ H).
-  - exact (v_done _ _ _ _ _ _ _ _ _ H).
-  - intros k0 y Hf0. destruct (v_dom _ _ _ _ _ _ _ _ _ H k0 y Hf0) as [mn0 [dn0 [Hn0 [Hd0 Hr0]]]].
-    destruct (Nat.eq_dec k0 o) as [->|Hne].
-    + assert (y = x) by congruence. subst y. rewrite Hmno in Hn0. inversion Hn0; subst mn0. rewrite Hdnx in Hd0. inversion Hd0; subst dn0.
-      exists mno. eexists. split; [exact Hmno|]. split; [exact Dx|].
-      destruct Hr0 as [H1 [H2 [H3 H4]]]. unfold nrel, nadj in *. rewrite Nat.eqb_refl. cbn [dn_b dn_ch dn_chunks].
-      rewrite Z.add_0_r in H1, H2.
-      split; [rewrite H1; apply bump_write; exact H2|]. split; [lia|]. split; [exact H3|exact H4].
-    + exists mn0, dn0. split; [exact Hn0|]. split.
-      { rewrite Do; [exact Hd0|]. intro E. subst y. apply Hne. exact (v_inj _ _ _ _ _ _ _ _ _ H k0 o x Hf0 Hfo). }
-      apply (nrel_retag f f None None (Some o) None); [apply psub_refl| |tauto|exact Hr0].
-      simpl. replace (Nat.eqb o k0) with false by (symmetry; apply Nat.eqb_neq; congruence). reflexivity.
-  - exact (v_ftype _ _ _ _ _ _ _ _ _ H).
-  - exact (v_inj _ _ _ _ _ _ _ _ _ H).
-  - intros q y Hq Hqne. rewrite Hfind in Hq. exact (v_L1 _ _ _ _ _ _ _ _ _ H q y Hq Hqne).
-  - intros q k0 y Hq Hf0 Hnin. rewrite Hfind. exact (v_L2 _ _ _ _ _ _ _ _ _ H q k0 y Hq Hf0 Hnin).
-  - rewrite Dl. destruct (v_root _ _ _ _ _ _ _ _ _ H) as [Hl|[H1 [H2 [H3 H4]]]]; [left; exact Hl|right].
-    split; [exact H1|]. split; [|split; [exact H3|exact H4]].
-    rewrite Do; [exact H2|]. intro E. subst x. exact (H3 o Hfo).
-  - intros q [].
-  - constructor.
-  - intros j Hj. inversion Hj; subst j. split; [apply nth_error_Some; congruence|congruence].
-  - intros y Hy. discriminate.
-  - exact (v_h _ _ _ _ _ _ _ _ _ H).
-  - exact (v_leaf _ _ _ _ _ _ _ _ _ H).
-Qed.
-
-Lemma fx_pset_h : forall f h i o k, k <> i -> fx f (pset h i o) k = fx f h k.
-Proof. intros f h i o k Hk. unfold fx. rewrite pset_other by exact Hk. reflexivity. Qed.
-
-(* the new name of the source node is linked below its parent in both stores *)
-Lemma Inv_link_hard : forall toc i ms ds f h e base par org x kp pid,
-  Inv toc i ms ds f h [] (Some org) None ->
-  nth_error toc i = Some e -> e_type e = THardlink -> cname e = base :: par ->
-  f org = Some x -> (org < i)%nat -> ntype ms org <> TDir ->
-  pfind par (ms_m ms) = Some kp -> f kp = Some pid -> ntype ms kp = TDir ->
-  (forall fuel, (i < fuel)%nat -> m_source fuel ms i = Some org) ->
-  Inv toc (S i) (m_add_child (m_nlink_inc (m_nlink_inc ms i) org) kp base org)
-      (d_set_child ds pid base x false) f (pset h i org) [] None None.
-Proof.
-  intros toc i ms ds f h e base par org x kp pid H Hi Hty Hname Hfo Hoi Hodir Hkp Hfkp Hkpdir Hsrc.
-  assert (Li : (i < length toc)%nat) by (apply nth_error_Some; congruence).
-  destruct (nth_error (ms_nodes ms) i) as [mni|] eqn:Hmni;
-    [|apply nth_error_None in Hmni; pose proof (v_lenm _ _ _ _ _ _ _ _ _ H); lia].
-  assert (Hei : mn_e mni = e).
-  { pose proof (v_ent _ _ _ _ _ _ _ _ _ H i mni Li Hmni) as E. rewrite Hi in E. inversion E. reflexivity. }
-  destruct (v_todo _ _ _ _ _ _ _ _ _ H i mni (conj (le_n i) Li) Hmni) as [Hfi [Hnli Hchi]].
-  assert (Hhi : h i = None) by exact (v_htodo _ _ _ _ _ _ _ _ _ H i (le_n i)).
-  destruct (v_dom _ _ _ _ _ _ _ _ _ H org x Hfo) as [mno [dnx [Hmno [Hdnx Hrelo]]]].
-  destruct (v_dom _ _ _ _ _ _ _ _ _ H kp pid Hfkp) as [mnp [dnp [Hmnp [Hdnp Hrelp]]]].
-  assert (Hpi : pfind (base :: par) (ms_m ms) = Some i) by (rewrite <- Hname; exact (v_expl _ _ _ _ _ _ _ _ _ H i e Hi)).
-  assert (Hio : i <> org) by lia.
-  assert (Hikp : i <> kp) by (intro; subst kp; congruence).
-  assert (Hokp : org <> kp) by (intro; subst kp; contradiction).
-  assert (Hxpid : x <> pid) by (intro; subst pid; apply Hokp; exact (v_inj _ _ _ _ _ _ _ _ _ H org kp x Hfo Hfkp)).
-  assert (Hotype : e_type (mn_e mno) <> TDir) by (rewrite <- (ntype_nth ms org mno Hmno); exact Hodir).
-  assert (Hoch : mn_ch mno = []) by exact (v_leaf _ _ _ _ _ _ _ _ _ H org mno Hmno Hotype).
-  assert (Lmi : (i < length (ms_nodes ms))%nat) by (apply nth_error_Some; congruence).
-  assert (Lmo : (org < length (ms_nodes ms))%nat) by (apply nth_error_Some; congruence).
-  (* the memory side, explicitly *)
-  set (N1 := upd (ms_nodes ms) i (MN e (mn_nlink mni + 1) [])).
-  set (N2 := upd N1 org (MN (mn_e mno) (mn_nlink mno + 1) (mn_ch mno))).
-  assert (E1 : m_nlink_inc ms i = MS N1 (ms_m ms)) by (unfold m_nlink_inc; rewrite Hmni, Hei, Hchi; reflexivity).
-  assert (N1o : nth_error N1 org = Some mno) by (unfold N1; rewrite nth_upd_other by exact Hio; exact Hmno).
-  assert (E2 : m_nlink_inc (m_nlink_inc ms i) org = MS N2 (ms_m ms)) by (rewrite E1; unfold m_nlink_inc; cbn [ms_nodes ms_m]; rewrite N1o; reflexivity).
-  assert (N2i : nth_error N2 i = Some (MN e (mn_nlink mni + 1) [])).
-  { unfold N2. rewrite nth_upd_other by congruence. unfold N1. apply nth_upd_same. exact Lmi. }
-  assert (N2o : nth_error N2 org = Some (MN (mn_e mno) (mn_nlink mno + 1) (mn_ch mno))).
-  { unfold N2. apply nth_upd_same. unfold N1. rewrite upd_length. exact Lmo. }
-  assert (N2x : forall z, z <> i -> z <> org -> nth_error N2 z = nth_error (ms_nodes ms) z).
-  { intros z Hz1 Hz2. unfold N2. rewrite nth_upd_other by congruence. unfold N1. apply nth_upd_other. congruence. }
-  assert (N2p : nth_error N2 kp = Some mnp) by (rewrite N2x by congruence; exact Hmnp).
-  set (ms2 := MS N2 (ms_m ms)).
-  destruct (m_add_child_spec ms2 kp base org mnp N2p) as [Mm [Ml [Mp Mo]]].
-  assert (Htyo : etype_eqb (m_type ms2 org) TDir = false).
-  { unfold m_type, ms2. cbn [ms_nodes]. rewrite N2o. cbn [mn_e]. destruct (e_type (mn_e mno)); simpl; congruence. }
-  rewrite Htyo in Mp. rewrite E2. fold ms2.
-  set (ms' := m_add_child ms2 kp base org) in *.
-  cbn [ms2 ms_m ms_nodes] in Mm, Ml. 
-  assert (Ml' : length (ms_nodes ms') = length (ms_nodes ms)) by (rewrite Ml; unfold N2, N1; rewrite !upd_length; reflexivity).
-  assert (Mi : nth_error (ms_nodes ms') i = Some (MN e (mn_nlink mni + 1) [])) by (rewrite Mo by exact Hikp; exact N2i).
-  assert (Mo' : nth_error (ms_nodes ms') org = Some (MN (mn_e mno) (mn_nlink mno + 1) (mn_ch mno))) by (rewrite Mo by exact Hokp; exact N2o).
-  assert (Mx : forall z, z <> i -> z <> org -> z <> kp -> nth_error (ms_nodes ms') z = nth_error (ms_nodes ms) z).
-  { intros z H1 H2 H3. rewrite Mo by exact H3. apply N2x; assumption. }
-  assert (Mfwd : forall z mn, nth_error (ms_nodes ms) z = Some mn -> exists mn', nth_error (ms_nodes ms') z = Some mn' /\ mn_e mn' = mn_e mn
-       /\ (ntype ms z <> TDir -> mn_ch mn' = mn_ch mn)).
-  { intros z mn Hz. destruct (Nat.eq_dec z i) as [->|Hzi].
-    - eexists. split; [exact Mi|]. rewrite Hmni in Hz. inversion Hz; subst mn. cbn [mn_e mn_ch]. rewrite Hei, Hchi. auto.
-    - destruct (Nat.eq_dec z org) as [->|Hzo].
-      + eexists. split; [exact Mo'|]. rewrite Hmno in Hz. inversion Hz; subst mn. auto.
-      + destruct (Nat.eq_dec z kp) as [->|Hzp].
-        * eexists. split; [exact Mp|]. rewrite Hmnp in Hz. inversion Hz; subst mn. split; [reflexivity|]. intro; contradiction.
-        * exists mn. split; [rewrite Mx by assumption; exact Hz|]. auto. }
-  assert (Mback : forall z mn', nth_error (ms_nodes ms') z = Some mn' -> exists mn, nth_error (ms_nodes ms) z = Some mn /\ mn_e mn' = mn_e mn
-       /\ (z <> i -> z <> org -> z <> kp -> mn' = mn)).
-  { intros z mn' Hz. destruct (nth_error (ms_nodes ms) z) as [mn|] eqn:E.
-    - destruct (Mfwd z mn E) as [mn'' [E' [He _]]]. rewrite Hz in E'. inversion E'; subst mn''. exists mn. split; [reflexivity|]. split; [exact He|].
-      intros H1 H2 H3. rewrite Mx in Hz by assumption. congruence.
-    - apply nth_error_None in E. rewrite <- Ml' in E. apply nth_error_None in E. congruence. }
-  assert (Mty : forall z, ntype ms' z = ntype ms z).
-  { intro z. unfold ntype. destruct (nth_error (ms_nodes ms) z) as [mn|] eqn:E.
-    - destruct (Mfwd z mn E) as [mn' [E' [He _]]]. rewrite E', He. reflexivity.
-    - assert (nth_error (ms_nodes ms') z = None) by (apply nth_error_None; rewrite Ml'; apply nth_error_None; exact E). rewrite H0. reflexivity. }
-  (* the db side *)
-  destruct (d_set_child_spec ds pid base x false dnp Hdnp) as [Dl [Dp [Do _]]]. cbv iota in Dp.
-  set (ds' := d_set_child ds pid base x false) in *.
-  assert (HparP : ~ In par []) by (intros []).
-  assert (HPar : d_find ds par = Some pid) by exact (v_L2 _ _ _ _ _ _ _ _ _ H par kp pid Hkp (fx_f f h kp pid Hfkp) HparP).
-  assert (Hxkids : d_children ds x = []).
-  { unfold d_children. rewrite Hdnx. destruct Hrelo as [_ [_ [Hc _]]]. rewrite Hoch in Hc. exact (ch_rel_nil _ _ Hc). }
-  assert (Hnone : find base (d_children ds pid) = None).
-  { destruct (d_find ds (base :: par)) as [y|] eqn:Ey.
-    - exfalso. destruct (v_L1 _ _ _ _ _ _ _ _ _ H _ y Ey ltac:(discriminate)) as [k0 [Hk0 [Hf0 _]]].
-      rewrite Hpi in Hk0. inversion Hk0; subst k0. unfold fx in Hf0. rewrite Hfi, Hhi in Hf0. discriminate.
-    - rewrite d_find_cons, HPar in Ey. exact Ey. }
-  assert (Lpid : (pid < length (ds_nodes ds))%nat) by (apply nth_error_Some; congruence).
-  assert (Hch' : forall y, d_children ds' y = if Nat.eqb y pid then ins base x (d_children ds pid) else d_children ds y)
-    by (intro y; apply d_children_set_child; exact Lpid).
-  assert (Hfind' : forall q, d_find ds' q = if path_eqb q (base :: par) then Some x else d_find ds q).
-  { apply (d_find_link2 ds ds' pid base x par Hch' HPar).
-    - intros q Hq. pose proof (Inv_find_dir _ _ _ _ _ _ _ _ _ H kp pid q Hfkp Hkpdir Hq) as Hq'.
-      exact (Inv_pfun_name _ _ _ _ _ _ _ _ _ H _ _ _ Hq' Hkp).
-    - exact Hnone.
-    - exact Hxkids.
-    - exact Hxpid. }
-  set (h' := pset h i org).
-  assert (Hfxi : fx f h' i = Some x) by (unfold fx, h'; rewrite Hfi, pset_same; exact Hfo).
-  assert (Hfxo : forall k, k <> i -> fx f h' k = fx f h k) by (intros k Hk; apply fx_pset_h; exact Hk).
-  constructor.
-  - rewrite Ml'. exact (v_lenm _ _ _ _ _ _ _ _ _ H).
-  - rewrite Mm. exact (v_mlen _ _ _ _ _ _ _ _ _ H).
-  - intros j e0 Hj. rewrite Mm. exact (v_expl _ _ _ _ _ _ _ _ _ H j e0 Hj).
-  - intros q k0 Hq. rewrite Mm in Hq. destruct (v_mdom _ _ _ _ _ _ _ _ _ H q k0 Hq) as [mn [Hn Hc]].
-    destruct (Mfwd k0 mn Hn) as [mn' [E' [He _]]]. exists mn'. split; [exact E'|]. rewrite He. exact Hc.
-  - intros j mn Hj Hn. destruct (Mback j mn Hn) as [mn0 [Hn0 [He _]]]. rewrite He. exact (v_ent _ _ _ _ _ _ _ _ _ H j mn0 Hj Hn0).
-  - intros k0 mn Hk0 Hn. destruct (Mback k0 mn Hn) as [mn0 [Hn0 [He _]]]. rewrite He. exact (v_impl _ _ _ _ _ _ _ _ _ H k0 mn0 Hk0 Hn0).
-  - intros j mn Hj Hn. destruct (Mback j mn Hn) as [mn0 [Hn0 [He Hsame]]].
-    destruct (v_todo _ _ _ _ _ _ _ _ _ H j mn0 ltac:(lia) Hn0) as [Hfj Hrest].
-    assert (mn = mn0) by (apply Hsame; [lia|lia|intro; subst j; congruence]). subst mn0. split; assumption.
-  - intros j Hj. unfold h'. rewrite pset_other by lia. apply (v_htodo _ _ _ _ _ _ _ _ _ H). lia.
-  - intros j Hj Hjn. destruct (Nat.eq_dec j i) as [->|Hji].
-    + right. unfold h'. rewrite pset_same. discriminate.
-    + unfold h'. rewrite pset_other by exact Hji. apply (v_done _ _ _ _ _ _ _ _ _ H); lia.
-  - intros k0 y Hf0. destruct (v_dom _ _ _ _ _ _ _ _ _ H k0 y Hf0) as [mn0 [dn0 [Hn0 [Hd0 Hr0]]]].
-    destruct (Nat.eq_dec k0 org) as [->|Hno].
-    + assert (y = x) by congruence. subst y. rewrite Hmno in Hn0. inversion Hn0; subst mn0.
-      eexists. exists dn0. split; [exact Mo'|]. split; [rewrite Do by exact Hxpid; exact Hd0|].
-      destruct Hr0 as [H1 [H2 [H3 H4]]]. unfold nrel, nadj in *. rewrite Nat.eqb_refl in H1, H2. cbn [mn_e mn_nlink mn_ch].
-      rewrite Z.add_0_r. split; [exact H1|]. split; [exact H2|]. split; [exact H3|exact H4].
-    + destruct (Nat.eq_dec k0 kp) as [->|Hnp].
-      * assert (y = pid) by congruence. subst y. rewrite Hmnp in Hn0. inversion Hn0; subst mn0. rewrite Hdnp in Hd0. inversion Hd0; subst dn0.
-        eexists. eexists. split; [exact Mp|]. split; [exact Dp|].
-        destruct Hr0 as [H1 [H2 [H3 H4]]]. unfold nrel in *. cbn [mn_e mn_nlink mn_ch dn_b dn_ch dn_chunks].
-        assert (Ha : nadj (Some org) kp = 0) by (simpl; replace (Nat.eqb org kp) with false by (symmetry; apply Nat.eqb_neq; exact Hokp); reflexivity).
-        rewrite Ha in H1, H2. simpl nadj.
-        split; [exact H1|]. split; [exact H2|]. split; [apply ch_rel_ins; assumption|exact H4].
-      * assert (k0 <> i) by (intro; subst k0; congruence).
-        exists mn0, dn0. split; [rewrite Mx by assumption; exact Hn0|]. split.
-        { rewrite Do; [exact Hd0|]. intro E. subst y. apply Hnp. exact (v_inj _ _ _ _ _ _ _ _ _ H k0 kp pid Hf0 Hfkp). }
-        apply (nrel_retag f f (Some org) None None None); [apply psub_refl| |tauto|exact Hr0].
-        simpl. replace (Nat.eqb org k0) with false by (symmetry; apply Nat.eqb_neq; congruence). reflexivity.
-  - intros k0 y Hf0. rewrite Mty. exact (v_ftype _ _ _ _ _ _ _ _ _ H k0 y Hf0).
-  - exact (v_inj _ _ _ _ _ _ _ _ _ H).
-  - intros q y Hq Hqne. rewrite Hfind' in Hq. rewrite Mm. destruct (path_eqb q (base :: par)) eqn:E.
-    + apply path_eqb_eq in E. subst q. inversion Hq; subst y. exists i. split; [exact Hpi|]. split; [exact Hfxi|intros []].
-    + destruct (v_L1 _ _ _ _ _ _ _ _ _ H q y Hq Hqne) as [k0 [H1 [H2 H3]]]. exists k0. split; [exact H1|]. split; [|exact H3].
-      rewrite Hfxo; [exact H2|]. intro; subst k0. unfold fx in H2. rewrite Hfi, Hhi in H2. discriminate.
-  - intros q k0 y Hq Hf0 Hnin. rewrite Mm in Hq. rewrite Hfind'. destruct (Nat.eq_dec k0 i) as [->|Hki].
-    + assert (q = base :: par) by exact (Inv_pfun_name _ _ _ _ _ _ _ _ _ H _ _ _ Hq Hpi). subst q.
-      rewrite path_eqb_refl. rewrite Hfxi in Hf0. exact Hf0.
-    + rewrite Hfxo in Hf0 by exact Hki. rewrite path_eqb_neq.
-      * exact (v_L2 _ _ _ _ _ _ _ _ _ H q k0 y Hq Hf0 Hnin).
-      * intro; subst q. rewrite Hpi in Hq. inversion Hq. congruence.
-  - rewrite Mm, Ml', Dl. destruct (v_root _ _ _ _ _ _ _ _ _ H) as [[r [Hr [Hfr [Htyr Hl]]]]|[H1 [H2 [H3 H4]]]].
-    + left. exists r. rewrite Mty. split; [exact Hr|]. split; [exact Hfr|]. split; [exact Htyr|lia].
-    + right. split; [exact H1|]. split; [|split; [exact H3|lia]].
-      rewrite Do; [exact H2|]. intro E. subst pid. exact (H3 kp Hfkp).
-  - intros q [].
-  - constructor.
-  - intros j Hj. discriminate.
-  - intros y Hy. discriminate.
-  - intros k0 o Hk0. destruct (Nat.eq_dec k0 i) as [->|Hki].
-    + unfold h' in Hk0. rewrite pset_same in Hk0. inversion Hk0; subst o.
-      split; [exact Hoi|]. split; [exact Li|]. split; [exact Hfi|]. split; [rewrite Mty, (ntype_nth ms i mni Hmni), Hei; exact Hty|].
-      split.
-      * exists x. eexists. split; [exact Hfo|]. split; [exact Mo'|]. split; [exact Hotype|exact Hoch].
-      * intros fuel Hf. apply (m_source_stable ms ms'); [|intros q k1 Hq; rewrite Mm; exact Hq|exact (Hsrc fuel Hf)].
-        intros z mn Hz. destruct (Mfwd z mn Hz) as [mn' [E' [He _]]]. exists mn'. auto.
-    + unfold h' in Hk0. rewrite pset_other in Hk0 by exact Hki.
-      refine (v_h_transport toc i ms ds f h [] (Some org) None ms' H _ _ f (psub_refl f) _ k0 o Hk0).
-      * exact Mfwd.
-      * intros q k1 Hq. rewrite Mm. exact Hq.
-      * intros k1 Hk1. destruct (h k1) as [o1|] eqn:Eo; [|contradiction].
-        destruct (v_h _ _ _ _ _ _ _ _ _ H k1 o1 Eo) as [_ [_ [Hfn _]]]. exact Hfn.
-  - intros z mn Hz Hnd. destruct (Mback z mn Hz) as [mn0 [Hn0 [He Hsame]]].
-    destruct (Nat.eq_dec z i) as [->|Hzi]; [rewrite Mi in Hz; inversion Hz; reflexivity|].
-    destruct (Nat.eq_dec z org) as [->|Hzo]; [rewrite Mo' in Hz; inversion Hz; exact Hoch|].
-    destruct (Nat.eq_dec z kp) as [->|Hzp].
-    + exfalso. rewrite Hmnp in Hn0. inversion Hn0; subst mn0. rewrite He in Hnd. rewrite (ntype_nth ms kp mnp Hmnp) in Hkpdir. contradiction.
-    + rewrite (Hsame Hzi Hzo Hzp). apply (v_leaf _ _ _ _ _ _ _ _ _ H z mn0 Hn0). rewrite <- He. exact Hnd.
-Qed.
-
-(* the relation looks at the db state only through its nodes *)
-Lemma Inv_ds_nodes : forall toc i ms ds ds' f h P np cp, ds_nodes ds' = ds_nodes ds ->
-  Inv toc i ms ds f h P np cp -> Inv toc i ms ds' f h P np cp.
-Proof.
-  intros toc i ms ds ds' f h P np cp E H.
-  assert (Hch : forall y, d_children ds y = d_children ds' y) by (intro y; unfold d_children; rewrite E; reflexivity).
-  assert (Hfind : forall p, d_find ds' p = d_find ds p) by (intro p; symmetry; apply d_find_ext; exact Hch).
-  constructor.
-  - exact (v_lenm _ _ _ _ _ _ _ _ _ H).
-  - exact (v_mlen _ _ _ _ _ _ _ _ _ H).
-  - exact (v_expl _ _ _ _ _ _ _ _ _ H).
-  - exact (v_mdom _ _ _ _ _ _ _ _ _ H).
-  - exact (v_ent _ _ _ _ _ _ _ _ _ H).
-  - exact (v_impl _ _ _ _ _ _ _ _ _ H).
-  - exact (v_todo _ _ _ _ _ _ _ _ _ H).
-  - exact (v_htodo _ _ _ _ _ _ _ _ _ H).
-  - exact (v_done _ _ _ _ _ _ _ _ _ H).
-  - intros k x Hf. destruct (v_dom _ _ _ _ _ _ _ _ _ H k x Hf) as [mn [dn [A [B C]]]]. exists mn, dn. rewrite E. auto.
-  - exact (v_ftype _ _ _ _ _ _ _ _ _ H).
-  - exact (v_inj _ _ _ _ _ _ _ _ _ H).
-  - intros q y Hq Hqne. rewrite Hfind in Hq. exact (v_L1 _ _ _ _ _ _ _ _ _ H q y Hq Hqne).
-  - intros q k0 y Hq Hf0 Hnin. rewrite Hfind. exact (v_L2 _ _ _ _ _ _ _ _ _ H q k0 y Hq Hf0 Hnin).
-  - rewrite E. exact (v_root _ _ _ _ _ _ _ _ _ H).
-  - exact (v_pend _ _ _ _ _ _ _ _ _ H).
-  - exact (v_nodupP _ _ _ _ _ _ _ _ _ H).
-  - exact (v_np _ _ _ _ _ _ _ _ _ H).
-  - rewrite E. exact (v_cp _ _ _ _ _ _ _ _ _ H).
-  - exact (v_h _ _ _ _ _ _ _ _ _ H).
-  - exact (v_leaf _ _ _ _ _ _ _ _ _ H).
-Qed.
-
-Lemma ntype_expl : forall toc i ms ds f h P np cp k ek, Inv toc i ms ds f h P np cp ->
-  nth_error toc k = Some ek -> ntype ms k = e_type ek.
-Proof.
-  intros toc i ms ds f h P np cp k ek H Hk.
-  assert (Lk : (k < length toc)%nat) by (apply nth_error_Some; congruence).
-  destruct (nth_error (ms_nodes ms) k) as [mn|] eqn:E;
-    [|apply nth_error_None in E; pose proof (v_lenm _ _ _ _ _ _ _ _ _ H); lia].
-  rewrite (ntype_nth ms k mn E). pose proof (v_ent _ _ _ _ _ _ _ _ _ H k mn Lk E) as Hek. congruence.
-Qed.
-
-(* the node a processed non-directory entry's name leads to *)
-Lemma resolve : forall toc i ms ds f h P np cp kt et, Inv toc i ms ds f h P np cp ->
-  nth_error toc kt = Some et -> e_type et <> TDir -> (f kt <> None \/ h kt <> None) ->
-  exists org x, f org = Some x /\ (org <= kt)%nat /\ ntype ms org <> TDir /\ fx f h kt = Some x /\
-                (forall fuel, (kt < fuel)%nat -> m_source fuel ms kt = Some org).
-Proof.
-  intros toc i ms ds f h P np cp kt et H Hkt Hnd Hd.
-  destruct (f kt) as [x|] eqn:Ef.
-  - exists kt, x. split; [exact Ef|]. split; [lia|]. split; [rewrite (ntype_expl _ _ _ _ _ _ _ _ _ kt et H Hkt); exact Hnd|].
-    split; [apply fx_f; exact Ef|].
-    intros fuel _. pose proof (v_ftype _ _ _ _ _ _ _ _ _ H kt x Ef) as Hty. unfold ntype in Hty.
-    destruct (nth_error (ms_nodes ms) kt) as [mn|] eqn:E.
-    + destruct fuel; simpl; rewrite E; (replace (etype_eqb (e_type (mn_e mn)) THardlink) with false
-        by (destruct (e_type (mn_e mn)); simpl; congruence)); reflexivity.
-    + exfalso. destruct (v_dom _ _ _ _ _ _ _ _ _ H kt x Ef) as [mn [_ [Hn _]]]. congruence.
-  - destruct Hd as [Hd|Hd]; [contradiction|]. destruct (h kt) as [o|] eqn:Eh; [|contradiction].
-    destruct (v_h _ _ _ _ _ _ _ _ _ H kt o Eh) as [H1 [_ [_ [_ [[x [mo [H5 [H6 [H7 _]]]]] H9]]]]].
-    exists o, x. split; [exact H5|]. split; [lia|]. split; [rewrite (ntype_nth ms o mo H6); exact H7|].
-    split; [unfold fx; rewrite Ef, Eh; exact H5|exact H9].
-Qed.
-
-Definition hard_entry (toc : list entry) (i : nat) (e : entry) : Prop :=
-  e_type e = THardlink /\ cname e <> [] /\
-  exists kt et, (kt < i)%nat /\ nth_error toc kt = Some et /\ cname et = clean (e_hl e) /\ e_type et <> TDir.
-
-Lemma Inv_step_hard : forall toc i ms ds f h e, ord_toc toc -> pardir_toc toc ->
-  Inv toc i ms ds f h [] None None -> nth_error toc i = Some e -> hard_entry toc i e ->
-  exists ms' ds' f' h', pass2_step (Some ms) (i, e) = Some ms' /\ db_step (Some ds) e = Some ds' /\
-                        Inv toc (S i) ms' ds' f' h' [] None None.
-Proof.
-  intros toc i ms ds f h e Hord Hpd H Hi [Hty [Hne [kt [et [Hkti [Hkt [Hnt Hetd]]]]]]].
-  assert (Li : (i < length toc)%nat) by (apply nth_error_Some; congruence).
-  assert (Lkt : (kt < length toc)%nat) by (apply nth_error_Some; congruence).
-  destruct (cname e) as [|base par] eqn:Hname; [contradiction|].
-  assert (Hnc : etype_eqb (e_type e) TChunk = false) by (rewrite Hty; reflexivity).
-  assert (Hhl : etype_eqb (e_type e) THardlink = true) by (rewrite Hty; reflexivity).
-  destruct (resolve _ _ _ _ _ _ _ _ _ kt et H Hkt Hetd (v_done _ _ _ _ _ _ _ _ _ H kt Hkti Lkt)) as [org [x [Hfo [Hokt [Hodir [Hfxkt _]]]]]].
-  assert (Hpt : pfind (clean (e_hl e)) (ms_m ms) = Some kt) by (rewrite <- Hnt; exact (v_expl _ _ _ _ _ _ _ _ _ H kt et Hkt)).
-  assert (Hdt : d_find ds (clean (e_hl e)) = Some x) by exact (v_L2 _ _ _ _ _ _ _ _ _ H _ kt x Hpt Hfxkt ltac:(intros [])).
-  pose proof (Inv_bump toc i ms ds f h org x H Hfo) as H1.
-  set (ds1 := d_upd_bucket ds x bump_nlink) in *.
-  assert (Hplain : Forall plain par).
-  { pose proof (cname_plain e) as Hp. rewrite Hname in Hp. inversion Hp; assumption. }
-  destruct (goc_sim toc i h (Some org) None par ms ds1 f [] H1 Hplain) as
-      [ms2 [ds2 [f2 [kp [pid [G1 [G2 [H2 [Hpp [Hfkp [Hsub2 [Hmono2 Hkpdir]]]]]]]]]]]].
-  { intros q k0 Hq Hp Hf0.
-    destruct (v_mdom _ _ _ _ _ _ _ _ _ H q k0 Hp) as [mn [Hn Hc]].
-    destruct (Nat.lt_ge_cases k0 (length toc)) as [Hl|Hg].
-    - pose proof (v_ent _ _ _ _ _ _ _ _ _ H k0 mn Hl Hn) as Hek.
-      assert (Hk0i : (k0 < i)%nat).
-      { apply (Hord i k0 e (mn_e mn) Hi Hek). rewrite Hc, Hname. apply psfx_of_sfx_cons. exact Hq. }
-      destruct (v_done _ _ _ _ _ _ _ _ _ H k0 Hk0i Hl) as [Hd|Hd]; [exact (Hd Hf0)|].
-      destruct (h k0) as [o|] eqn:Eo; [|contradiction].
-      destruct (v_h _ _ _ _ _ _ _ _ _ H k0 o Eo) as [_ [_ [_ [Hty0 _]]]].
-      rewrite (anc_dir toc i ms ds f h [] None None e base par H Hpd Hi Hname q k0 Hq Hp) in Hty0. discriminate.
-    - destruct (v_impl _ _ _ _ _ _ _ _ _ H k0 mn Hg Hn) as [_ Hfn]. exact (Hfn Hf0). }
-  { intros q Hq []. }
-  { exact (anc_dir toc i ms ds f h [] None None e base par H Hpd Hi Hname). }
-  (* the same source, seen in the state after getOrCreateDir *)
-  assert (Hd2 : f2 kt <> None \/ h kt <> None).
-  { destruct (v_done _ _ _ _ _ _ _ _ _ H kt Hkti Lkt) as [Hd|Hd]; [left|right; exact Hd].
-    destruct (f kt) as [y|] eqn:E; [|contradiction]. rewrite (Hsub2 kt y E). discriminate. }
-  destruct (resolve _ _ _ _ _ _ _ _ _ kt et H2 Hkt Hetd Hd2) as [org2 [x2 [Hfo2 [_ [Hodir2 [Hfxkt2 Hsrc2]]]]]].
-  assert (Hfx2 : fx f2 h kt = Some x).
-  { destruct (fx_cases f h kt x Hfxkt) as [E|[E [o [Ho Eo]]]].
-    - apply fx_f. exact (Hsub2 kt x E).
-    - destruct (v_h _ _ _ _ _ _ _ _ _ H2 kt o Ho) as [_ [_ [Hf2n _]]]. unfold fx. rewrite Hf2n, Ho. exact (Hsub2 o x Eo). }
-  assert (x2 = x) by congruence. subst x2.
-  assert (org2 = org) by exact (v_inj _ _ _ _ _ _ _ _ _ H2 org2 org x Hfo2 (Hsub2 org x Hfo)). subst org2.
-  assert (Hoi : (org < i)%nat) by lia.
-  destruct (nth_error (ms_nodes ms2) i) as [mni|] eqn:Hmni;
-    [|apply nth_error_None in Hmni; pose proof (v_lenm _ _ _ _ _ _ _ _ _ H2); lia].
-  assert (Hei : mn_e mni = e).
-  { pose proof (v_ent _ _ _ _ _ _ _ _ _ H2 i mni Li Hmni) as E. rewrite Hi in E. inversion E. reflexivity. }
-  assert (Hpt2 : pfind (clean (e_hl e)) (ms_m ms2) = Some kt) by (apply Hmono2; exact Hpt).
-  assert (Hsrc_i : forall fuel, (i < fuel)%nat -> m_source fuel ms2 i = Some org).
-  { intros fuel Hf. destruct fuel as [|fuel]; [lia|]. simpl. rewrite Hmni, Hei, Hhl, Hpt2. apply Hsrc2. lia. }
-  pose proof (Inv_link_hard toc i ms2 ds2 f2 h e base par org x kp pid H2 Hi Hty Hname Hfo2 Hoi Hodir2 Hpp Hfkp Hkpdir Hsrc_i) as H5.
-  set (ms' := m_add_child (m_nlink_inc (m_nlink_inc ms2 i) org) kp base org) in *.
-  set (ds' := d_set_child ds2 pid base x false) in *.
-  exists ms', (DS (ds_nodes ds') (Some x) (e_size e)), f2, (pset h i org).
-  split; [|split].
-  - unfold pass2_step. rewrite Hnc. unfold cname in Hname. rewrite Hname. rewrite G1. rewrite Hhl.
-    assert (Hsrc3 : m_source (S (length (ms_m (m_nlink_inc ms2 i)))) (m_nlink_inc ms2 i) i = Some org).
-    { apply (m_source_stable ms2 (m_nlink_inc ms2 i)).
-      - intros z mn Hz. unfold m_nlink_inc. rewrite Hmni. cbn [ms_nodes]. destruct (Nat.eq_dec z i) as [->|Hzi].
-        + eexists. split; [apply nth_upd_same; apply nth_error_Some; congruence|]. rewrite Hmni in Hz. inversion Hz; subst mn. reflexivity.
-        + exists mn. split; [rewrite nth_upd_other by congruence; exact Hz|reflexivity].
-      - intros q k0 Hq. rewrite m_nlink_inc_m. exact Hq.
-      - apply Hsrc_i. rewrite m_nlink_inc_m. pose proof (v_mlen _ _ _ _ _ _ _ _ _ H2). lia. }
-    rewrite Hsrc3. reflexivity.
-  - unfold db_step. unfold cname in Hname. rewrite Hname, Hnc, Hhl, Hdt. fold ds1. rewrite G2.
-    rewrite Hty. simpl etype_eqb. unfold d_add_chunk. rewrite Hty. simpl. reflexivity.
-  - apply (Inv_ds_nodes toc (S i) ms' ds' _ f2 (pset h i org) [] None None); [reflexivity|exact H5].
 Qed.
 
 (* ---------- initial states and the whole run ---------- *)
@@ -1607,14 +942,10 @@ Qed.
 
 Definition ms_init (toc : list entry) : mst := MS (map init_node toc) (rev (names_from 0 toc)).
 
-Lemma number_length : forall {B} (l : list B) s, length (number s l) = length l.
-Proof. induction l as [|x t IH]; intros s; simpl; [reflexivity|]. rewrite IH. reflexivity. Qed.
-
-Lemma Inv_init : forall toc, NoDup (map cname toc) -> Inv toc 0 (ms_init toc) d_init (fun _ => None) (fun _ => None) [] None None.
+Lemma Inv_init : forall toc, NoDup (map cname toc) -> Inv toc 0 (ms_init toc) d_init (fun _ => None) [] None None.
 Proof.
   intros toc Hnd. unfold ms_init. constructor; cbn [ms_nodes ms_m].
   - rewrite map_length. lia.
-  - rewrite rev_length. unfold names_from. rewrite map_length. rewrite number_length. lia.
   - intros j e Hj. exact (m0_lookup toc j e Hnd Hj).
   - intros p k Hp. apply pfind_some_in in Hp. apply in_rev in Hp. unfold names_from in Hp.
     apply in_map_iff in Hp. destruct Hp as [[k0 e] [E Hin]]. simpl in E. inversion E; subst.
@@ -1624,9 +955,7 @@ Proof.
   - intros k mn Hk Hn. assert (nth_error (map init_node toc) k = None) by (apply nth_error_None; rewrite map_length; exact Hk). congruence.
   - intros j mn Hj Hn. rewrite nth_error_map in Hn. destruct (nth_error toc j); simpl in Hn; inversion Hn; subst.
     split; [reflexivity|split; reflexivity].
-  - reflexivity.
   - intros j Hj. lia.
-  - intros k x Hf. discriminate.
   - intros k x Hf. discriminate.
   - intros k k' x Hf. discriminate.
   - intros p x Hp Hpne. exfalso. destruct p as [|b q]; [contradiction|].
@@ -1634,7 +963,7 @@ Proof.
     assert (Hy : d_children d_init y = []).
     { unfold d_children, d_init. simpl. destruct y as [|y]; [reflexivity|]. destruct y; reflexivity. }
     rewrite Hy in Hp. discriminate.
-  - intros p k x Hp Hf. unfold fx in Hf. discriminate.
+  - intros p k x Hp Hf. discriminate.
   - right. split; [destruct (pfind [] (rev (names_from 0 toc))) as [r0|]; [right; exists r0; auto|left; reflexivity]|].
     split; [reflexivity|]. split; [intros k Hk; discriminate|].
     rewrite map_length. simpl. lia.
@@ -1642,26 +971,21 @@ Proof.
   - constructor.
   - intros j Hj. discriminate.
   - intros y Hy. discriminate.
-  - intros k o Hk. discriminate.
-  - intros z mn Hz Hnd0. rewrite nth_error_map in Hz. destruct (nth_error toc z); simpl in Hz; inversion Hz; subst. reflexivity.
 Qed.
 
-Lemma Inv_run : forall toc, ord_toc toc -> pardir_toc toc -> forall suffix i ms ds f h, Inv toc i ms ds f h [] None None ->
-  (forall k e, nth_error suffix k = Some e -> nth_error toc (i + k) = Some e /\ (entry_ok e \/ hard_entry toc (i + k) e)) ->
+Lemma Inv_run : forall toc, ord_toc toc -> forall suffix i ms ds f, Inv toc i ms ds f [] None None ->
+  Forall entry_ok suffix ->
+  (forall k e, nth_error suffix k = Some e -> nth_error toc (i + k) = Some e) ->
   (length suffix + i = length toc)%nat ->
-  exists ms' ds' f' h', fold_left pass2_step (number i suffix) (Some ms) = Some ms' /\
-                        fold_left db_step suffix (Some ds) = Some ds' /\ Inv toc (length toc) ms' ds' f' h' [] None None.
+  exists ms' ds' f', fold_left pass2_step (number i suffix) (Some ms) = Some ms' /\
+                     fold_left db_step suffix (Some ds) = Some ds' /\ Inv toc (length toc) ms' ds' f' [] None None.
 Proof.
-  intros toc Hs Hpd. induction suffix as [|e t IH]; intros i ms ds f h HI Hnth Hlen.
-  - simpl in *. subst i. exists ms, ds, f, h. auto.
-  - destruct (Hnth 0%nat e eq_refl) as [Hi Hoke]. rewrite Nat.add_0_r in Hi, Hoke.
-    assert (Hstep : exists ms1 ds1 f1 h1, pass2_step (Some ms) (i, e) = Some ms1 /\ db_step (Some ds) e = Some ds1 /\
-                      Inv toc (S i) ms1 ds1 f1 h1 [] None None).
-    { destruct Hoke as [Hoke|Hhard].
-      - destruct (Inv_step toc i ms ds f h e Hs Hpd Hoke HI Hi) as [ms1 [ds1 [f1 [H1 [H2 HI1]]]]]. exists ms1, ds1, f1, h. auto.
-      - exact (Inv_step_hard toc i ms ds f h e Hs Hpd HI Hi Hhard). }
-    destruct Hstep as [ms1 [ds1 [f1 [h1 [H1 [H2 HI1]]]]]].
-    cbn [number fold_left]. rewrite H1, H2. apply (IH (S i) ms1 ds1 f1 h1 HI1).
+  intros toc Hs. induction suffix as [|e t IH]; intros i ms ds f HI Hoks Hnth Hlen.
+  - simpl in *. subst i. exists ms, ds, f. auto.
+  - assert (Hi : nth_error toc i = Some e) by (rewrite <- (Nat.add_0_r i); apply Hnth; reflexivity).
+    inversion Hoks as [|? ? Hoke Hokt]; subst.
+    destruct (Inv_step toc i ms ds f e Hs Hoke HI Hi) as [ms1 [ds1 [f1 [H1 [H2 HI1]]]]].
+    cbn [number fold_left]. rewrite H1, H2. apply (IH (S i) ms1 ds1 f1 HI1 Hokt).
     + intros k e' Hk. replace (S i + k)%nat with (i + S k)%nat by lia. apply Hnth. exact Hk.
     + simpl in Hlen. lia.
 Qed.
@@ -1670,18 +994,16 @@ Lemma d_find_prefix : forall s b q y, d_find s (b :: q) = Some y -> exists z, d_
 Proof. intros s b q y H. rewrite d_find_cons in H. destruct (d_find s q) as [z|]; [exists z; reflexivity|discriminate]. Qed.
 
 (* once an entry has been processed the memory store has its root *)
-Lemma Inv_root_mapped : forall toc i ms ds f h e, Inv toc (S i) ms ds f h [] None None -> nth_error toc 0 = Some e ->
-  exists r, pfind [] (ms_m ms) = Some r /\ f r = Some O.
+Lemma Inv_root_mapped : forall toc i ms ds f e, Inv toc (S i) ms ds f [] None None -> nth_error toc 0 = Some e ->
+  exists r, pfind [] (ms_m ms) = Some r /\ f r = Some O /\ (length (ms_nodes ms) + S i = length (ds_nodes ds) + length toc)%nat.
 Proof.
-  intros toc i ms ds f h e H H0.
-  destruct (v_root _ _ _ _ _ _ _ _ _ H) as [[r [H1 [H2 H3]]]|[_ [Hroot [Hno _]]]].
-  - exists r. split; [exact H1|exact H2].
+  intros toc i ms ds f e H H0.
+  destruct (v_root _ _ _ _ _ _ _ _ H) as [[r [H1 [H2 H3]]]|[_ [Hroot [Hno _]]]].
+  - exists r. split; [exact H1|]. split; [exact H2|]. lia.
   - exfalso.
     assert (L0 : (0 < length toc)%nat) by (apply nth_error_Some; congruence).
-    destruct (f 0%nat) as [x0|] eqn:Ef.
-    2:{ destruct (v_done _ _ _ _ _ _ _ _ _ H 0%nat ltac:(lia) L0) as [Hd|Hd]; [exact (Hd Ef)|].
-        destruct (h 0%nat) as [o|] eqn:Eh; [|contradiction]. destruct (v_h _ _ _ _ _ _ _ _ _ H 0%nat o Eh) as [Hlt _]. lia. }
-    pose proof (v_L2 _ _ _ _ _ _ _ _ _ H (cname e) 0%nat x0 (v_expl _ _ _ _ _ _ _ _ _ H 0%nat e H0) (fx_f f h 0%nat x0 Ef) ltac:(intros [])) as Hd.
+    destruct (f 0%nat) as [x0|] eqn:Ef; [|exact (v_done _ _ _ _ _ _ _ _ H 0%nat ltac:(lia) L0 Ef)].
+    pose proof (v_L2 _ _ _ _ _ _ _ _ H (cname e) 0%nat x0 (v_expl _ _ _ _ _ _ _ _ H 0%nat e H0) Ef ltac:(intros [])) as Hd.
     destruct (cname e) as [|c0 q0] eqn:Hne0; [simpl in Hd; inversion Hd; subst x0; exact (Hno 0%nat Ef)|].
     assert (Hne : c0 :: q0 <> []) by discriminate.
     (* walk down to the top-level ancestor *)
@@ -1722,18 +1044,18 @@ Qed.
 Lemma show_ok_implicit : forall d, show_ok (implicit_dir d).
 Proof. intro d. constructor; simpl; try reflexivity; try lia; intro H; try discriminate. Qed.
 
-Lemma walk_rel : forall toc M D f h probes, Forall show_ok toc -> Inv toc (length toc) M D f h [] None None ->
+Lemma walk_rel : forall toc M D f probes, Forall show_ok toc -> Inv toc (length toc) M D f [] None None ->
   Forall (fun p => 0 <= p) probes ->
   forall fuel k x path, f k = Some x ->
     Forall2 (rrel f) (mem_walk M [] probes fuel k path) (db_walk D probes fuel x path).
 Proof.
-  intros toc M D f h probes Hok H Hprobes. induction fuel as [|fuel IH]; intros k x path Hf; [constructor|].
+  intros toc M D f probes Hok H Hprobes. induction fuel as [|fuel IH]; intros k x path Hf; [constructor|].
   cbn [mem_walk db_walk].
-  destruct (v_dom _ _ _ _ _ _ _ _ _ H k x Hf) as [mn [dn [Hn [Hd Hr]]]]. rewrite Hn, Hd.
+  destruct (v_dom _ _ _ _ _ _ _ _ H k x Hf) as [mn [dn [Hn [Hd Hr]]]]. rewrite Hn, Hd.
   assert (Hshow : show_ok (mn_e mn)).
   { destruct (Nat.lt_ge_cases k (length toc)) as [Hl|Hg].
-    - rewrite Forall_forall in Hok. apply Hok. eapply nth_error_In. exact (v_ent _ _ _ _ _ _ _ _ _ H k mn Hl Hn).
-    - destruct (v_impl _ _ _ _ _ _ _ _ _ H k mn Hg Hn) as [[d Hd'] _]. rewrite Hd'. apply show_ok_implicit. }
+    - rewrite Forall_forall in Hok. apply Hok. eapply nth_error_In. exact (v_ent _ _ _ _ _ _ _ _ H k mn Hl Hn).
+    - destruct (v_impl _ _ _ _ _ _ _ _ H k mn Hg Hn) as [[d Hd'] _]. rewrite Hd'. apply show_ok_implicit. }
   destruct Hr as [Hb [Hnl [Hc [Hck _]]]].
   constructor.
   - split.
@@ -1751,20 +1073,20 @@ Qed.
 
 (* ---------- an explicit root entry ("./", "/") ---------- *)
 
-Lemma Inv_step_root : forall toc i ms ds f h e,
-  Inv toc i ms ds f h [] None None -> nth_error toc i = Some e -> cname e = [] -> e_type e = TDir ->
+Lemma Inv_step_root : forall toc i ms ds f e,
+  Inv toc i ms ds f [] None None -> nth_error toc i = Some e -> cname e = [] -> e_type e = TDir ->
   nth_error (ds_nodes ds) 0 = Some (DN (write_attr root_attr) [] []) -> (forall k, f k <> Some O) ->
   exists ds', pass2_step (Some ms) (i, e) = Some (m_nlink_inc ms i) /\ db_step (Some ds) e = Some ds' /\
-              Inv toc (S i) (m_nlink_inc ms i) ds' (pset f i O) h [] None None.
+              Inv toc (S i) (m_nlink_inc ms i) ds' (pset f i O) [] None None.
 Proof.
-  intros toc i ms ds f h e H Hi Hname Hdir Hroot Hno.
+  intros toc i ms ds f e H Hi Hname Hdir Hroot Hno.
   assert (Li : (i < length toc)%nat) by (apply nth_error_Some; congruence).
   destruct (nth_error (ms_nodes ms) i) as [mni|] eqn:Hmni;
-    [|apply nth_error_None in Hmni; pose proof (v_lenm _ _ _ _ _ _ _ _ _ H); lia].
+    [|apply nth_error_None in Hmni; pose proof (v_lenm _ _ _ _ _ _ _ _ H); lia].
   assert (Hei : mn_e mni = e).
-  { pose proof (v_ent _ _ _ _ _ _ _ _ _ H i mni Li Hmni) as E. rewrite Hi in E. inversion E. reflexivity. }
-  destruct (v_todo _ _ _ _ _ _ _ _ _ H i mni (conj (le_n i) Li) Hmni) as [Hfi [Hnl Hch]].
-  assert (Hpi : pfind [] (ms_m ms) = Some i) by (rewrite <- Hname; exact (v_expl _ _ _ _ _ _ _ _ _ H i e Hi)).
+  { pose proof (v_ent _ _ _ _ _ _ _ _ H i mni Li Hmni) as E. rewrite Hi in E. inversion E. reflexivity. }
+  destruct (v_todo _ _ _ _ _ _ _ _ H i mni (conj (le_n i) Li) Hmni) as [Hfi [Hnl Hch]].
+  assert (Hpi : pfind [] (ms_m ms) = Some i) by (rewrite <- Hname; exact (v_expl _ _ _ _ _ _ _ _ H i e Hi)).
   set (ds' := DS (upd (ds_nodes ds) 0 (DN (write_attr (attr_of e 2)) [] [])) (Some O) (e_size e)).
   set (f' := pset f i O).
   assert (L0 : (0 < length (ds_nodes ds))%nat) by (apply nth_error_Some; congruence).
@@ -1796,21 +1118,21 @@ Proof.
     replace (read_numlink (dn_b (DN (write_attr root_attr) [] []))) with 2 by reflexivity.
     unfold d_add_chunk. rewrite Hdir. simpl etype_eqb. simpl. reflexivity.
   - constructor.
-    + rewrite Mlen. exact (v_lenm _ _ _ _ _ _ _ _ _ H).
-    + rewrite Mm. exact (v_expl _ _ _ _ _ _ _ _ _ H).
-    + intros q k0 Hq. rewrite Mm in Hq. destruct (v_mdom _ _ _ _ _ _ _ _ _ H q k0 Hq) as [mn [Hn Hc]].
+    + rewrite Mlen. exact (v_lenm _ _ _ _ _ _ _ _ H).
+    + rewrite Mm. exact (v_expl _ _ _ _ _ _ _ _ H).
+    + intros q k0 Hq. rewrite Mm in Hq. destruct (v_mdom _ _ _ _ _ _ _ _ H q k0 Hq) as [mn [Hn Hc]].
       destruct (Nat.eq_dec k0 i) as [->|Hne].
       * eexists. split; [exact Mi|]. simpl. rewrite Hmni in Hn. inversion Hn; subst mn. rewrite <- Hei. exact Hc.
       * exists mn. split; [rewrite Mo by exact Hne; exact Hn|exact Hc].
     + intros j mn Hj Hn. destruct (Nat.eq_dec j i) as [->|Hne].
       * rewrite Mi in Hn. inversion Hn; subst mn. exact Hi.
-      * rewrite Mo in Hn by exact Hne. exact (v_ent _ _ _ _ _ _ _ _ _ H j mn Hj Hn).
-    + intros k0 mn Hk0 Hn. rewrite Mo in Hn by lia. destruct (v_impl _ _ _ _ _ _ _ _ _ H k0 mn Hk0 Hn) as [Hd Hf0].
+      * rewrite Mo in Hn by exact Hne. exact (v_ent _ _ _ _ _ _ _ _ H j mn Hj Hn).
+    + intros k0 mn Hk0 Hn. rewrite Mo in Hn by lia. destruct (v_impl _ _ _ _ _ _ _ _ H k0 mn Hk0 Hn) as [Hd Hf0].
       split; [exact Hd|]. rewrite Hf'old by lia. exact Hf0.
-    + intros j mn Hj Hn. rewrite Mo in Hn by lia. rewrite Hf'old by lia. apply (v_todo _ _ _ _ _ _ _ _ _ H j mn); [lia|exact Hn].
+    + intros j mn Hj Hn. rewrite Mo in Hn by lia. rewrite Hf'old by lia. apply (v_todo _ _ _ _ _ _ _ _ H j mn); [lia|exact Hn].
     + intros j Hj Hjn. destruct (Nat.eq_dec j i) as [->|Hji].
       * unfold f'. rewrite pset_same. discriminate.
-      * rewrite Hf'old by exact Hji. apply (v_done _ _ _ _ _ _ _ _ _ H); lia.
+      * rewrite Hf'old by exact Hji. apply (v_done _ _ _ _ _ _ _ _ H); lia.
     + intros k0 x0 Hf0. destruct (Nat.eq_dec k0 i) as [->|Hne0].
       * unfold f' in Hf0. rewrite pset_same in Hf0. inversion Hf0; subst x0.
         eexists. eexists. split; [exact Mi|]. split; [exact D0|].
@@ -1818,23 +1140,23 @@ Proof.
         split; [reflexivity|]. split; [lia|]. split; [constructor|].
         split; [intros _; unfold chunks_ok; cbn [mn_e dn_chunks]; rewrite Hdir; reflexivity|intro E; discriminate].
       * rewrite Hf'old in Hf0 by exact Hne0.
-        destruct (v_dom _ _ _ _ _ _ _ _ _ H k0 x0 Hf0) as [mn [dn [Hn [Hd Hr]]]].
+        destruct (v_dom _ _ _ _ _ _ _ _ H k0 x0 Hf0) as [mn [dn [Hn [Hd Hr]]]].
         exists mn, dn. split; [rewrite Mo by exact Hne0; exact Hn|]. split.
         { rewrite Do; [exact Hd|]. intro E. subst x0. exact (Hno k0 Hf0). }
         exact (nrel_mono f f' _ _ _ _ _ _ Hsub Hr).
     + intros k0 k1 y H0 H1. destruct (Nat.eq_dec k0 i) as [->|Hne0]; destruct (Nat.eq_dec k1 i) as [->|Hne1]; try reflexivity.
       * unfold f' in H0. rewrite pset_same in H0. inversion H0; subst y. rewrite Hf'old in H1 by exact Hne1. exfalso. exact (Hno k1 H1).
       * unfold f' in H1. rewrite pset_same in H1. inversion H1; subst y. rewrite Hf'old in H0 by exact Hne0. exfalso. exact (Hno k0 H0).
-      * rewrite Hf'old in H0, H1 by assumption. exact (v_inj _ _ _ _ _ _ _ _ _ H k0 k1 y H0 H1).
-    + intros q y Hq Hqne. rewrite Hfind in Hq. rewrite Mm. destruct (v_L1 _ _ _ _ _ _ _ _ _ H q y Hq Hqne) as [k0 [H1 [H2 H3]]].
+      * rewrite Hf'old in H0, H1 by assumption. exact (v_inj _ _ _ _ _ _ _ _ H k0 k1 y H0 H1).
+    + intros q y Hq Hqne. rewrite Hfind in Hq. rewrite Mm. destruct (v_L1 _ _ _ _ _ _ _ _ H q y Hq Hqne) as [k0 [H1 [H2 H3]]].
       exists k0. split; [exact H1|]. split; [apply Hsub; exact H2|exact H3].
     + intros q k0 y Hq Hf0 Hnin. rewrite Mm in Hq. rewrite Hfind. destruct (Nat.eq_dec k0 i) as [->|Hne0].
-      * assert (q = []) by exact (Inv_pfun_name _ _ _ _ _ _ _ _ _ H _ _ _ Hq Hpi). subst q.
+      * assert (q = []) by exact (Inv_pfun_name _ _ _ _ _ _ _ _ H _ _ _ Hq Hpi). subst q.
         unfold f' in Hf0. rewrite pset_same in Hf0. inversion Hf0. reflexivity.
-      * rewrite Hf'old in Hf0 by exact Hne0. exact (v_L2 _ _ _ _ _ _ _ _ _ H q k0 y Hq Hf0 Hnin).
+      * rewrite Hf'old in Hf0 by exact Hne0. exact (v_L2 _ _ _ _ _ _ _ _ H q k0 y Hq Hf0 Hnin).
     + left. exists i. rewrite Mm, Mlen. split; [exact Hpi|]. split; [unfold f'; apply pset_same|].
       unfold ds'. cbn [ds_nodes]. rewrite upd_length.
-      destruct (v_root _ _ _ _ _ _ _ _ _ H) as [[r [_ [Hfr _]]]|[_ [_ [_ Hl]]]]; [exfalso; exact (Hno r Hfr)|lia].
+      destruct (v_root _ _ _ _ _ _ _ _ H) as [[r [_ [Hfr _]]]|[_ [_ [_ Hl]]]]; [exfalso; exact (Hno r Hfr)|lia].
     + intros q [].
     + constructor.
     + intros j Hj. discriminate.
@@ -1902,25 +1224,25 @@ Proof.
   - exact (show_ok_root_entry e Hr).
 Qed.
 
-Lemma agree_from_Inv : forall toc e0 M D f h probes,
+Lemma agree_from_Inv : forall toc e0 M D f probes,
   nth_error toc 0 = Some e0 -> Forall (fun e => entry_ok e \/ root_entry e) toc ->
   fold_left pass2_step (number 0 toc) (Some (ms_init toc)) = Some M -> db_build toc = Some D ->
-  Inv toc (length toc) M D f h [] None None -> Forall (fun p => 0 <= p) probes ->
+  Inv toc (length toc) M D f [] None None -> Forall (fun p => 0 <= p) probes ->
   view_mem toc probes = view_db toc probes /\ view_mem toc probes <> None.
 Proof.
-  intros toc e0 M D f h probes H0 Hok Hm Hd HI Hp.
+  intros toc e0 M D f probes H0 Hok Hm Hd HI Hp.
   destruct (pass1_weak toc (P1 [] [] [] [] None) (tree_pass1_ok toc Hok) eq_refl) as [P1n [P1m P1c]].
   cbn [p1_nodes p1_m app length] in P1n, P1m. rewrite app_nil_r in P1m. fold (pass1 toc) in P1n, P1m, P1c.
   assert (Hlen : exists n', length toc = S n') by (destruct toc; [discriminate|eexists; reflexivity]).
   destruct Hlen as [n' Hn'].
-  assert (HIS : Inv toc (S n') M D f h [] None None) by (rewrite <- Hn'; exact HI).
+  assert (HIS : Inv toc (S n') M D f [] None None) by (rewrite <- Hn'; exact HI).
   destruct (Inv_root_mapped toc n' M D f e0 HIS H0) as [r [Hr [Hfr Hlen]]].
   assert (Hmb : mem_build toc = Some (M, [])).
   { unfold mem_build. rewrite P1n, P1m, P1c. unfold ms_init in Hm. rewrite Hm.
     destruct (ms_m M) eqn:E; [simpl in Hr; discriminate|reflexivity]. }
   unfold view_mem, view_db. rewrite Hmb, Hd, Hr.
   split; [|discriminate]. f_equal.
-  apply (assign_inos_rel f (v_inj _ _ _ _ _ _ _ _ _ HI)).
+  apply (assign_inos_rel f (v_inj _ _ _ _ _ _ _ _ HI)).
   apply (walk_rel toc M D f probes (tree_show_ok toc Hok) HI Hp). exact Hfr.
 Qed.
 
